@@ -19,168 +19,168 @@ UnitDef == "metre" :> [base |-> TRUE, def |-> <<  >>]
   @@ "person" :> [base |-> TRUE, def |-> <<  >>]
   @@ "LOC" :> [base |-> TRUE, def |-> <<  >>]
   @@ "unix_s" :> [base |-> TRUE, def |-> <<  >>]
-  @@ "volt" :> [base |-> FALSE, def |-> << [u |-> "gram", pk |-> "metric", pe |-> 3, n |-> 1, d |-> 1], [u |-> "metre", pk |-> "metric", pe |-> 0, n |-> 2, d |-> 1], [u |-> "second", pk |-> "metric", pe |-> 0, n |-> -3, d |-> 1], [u |-> "ampere", pk |-> "metric", pe |-> 0, n |-> -1, d |-> 1] >>]
-  @@ "litre" :> [base |-> FALSE, def |-> << [u |-> "metre", pk |-> "metric", pe |-> -1, n |-> 3, d |-> 1] >>]
-  @@ "henry" :> [base |-> FALSE, def |-> << [u |-> "weber", pk |-> "metric", pe |-> 0, n |-> 1, d |-> 1], [u |-> "ampere", pk |-> "metric", pe |-> 0, n |-> -1, d |-> 1] >>]
-  @@ "fathom" :> [base |-> FALSE, def |-> << [u |-> "yard", pk |-> "metric", pe |-> 0, n |-> 1, d |-> 1] >>]
-  @@ "astronomicalunit" :> [base |-> FALSE, def |-> << [u |-> "metre", pk |-> "metric", pe |-> 0, n |-> 1, d |-> 1] >>]
-  @@ "tesla" :> [base |-> FALSE, def |-> << [u |-> "weber", pk |-> "metric", pe |-> 0, n |-> 1, d |-> 1], [u |-> "metre", pk |-> "metric", pe |-> 0, n |-> -2, d |-> 1] >>]
-  @@ "arcminute" :> [base |-> FALSE, def |-> << [u |-> "degree", pk |-> "metric", pe |-> 0, n |-> 1, d |-> 1] >>]
-  @@ "thermie" :> [base |-> FALSE, def |-> << [u |-> "calorie", pk |-> "metric", pe |-> 3, n |-> 1, d |-> 1] >>]
-  @@ "swimmingpool" :> [base |-> FALSE, def |-> << [u |-> "metre", pk |-> "metric", pe |-> 0, n |-> 1, d |-> 1], [u |-> "metre", pk |-> "metric", pe |-> 0, n |-> 1, d |-> 1], [u |-> "metre", pk |-> "metric", pe |-> 0, n |-> 1, d |-> 1] >>]
-  @@ "ounce_force" :> [base |-> FALSE, def |-> << [u |-> "pound_force", pk |-> "metric", pe |-> 0, n |-> 1, d |-> 1] >>]
-  @@ "nautical_mile" :> [base |-> FALSE, def |-> << [u |-> "metre", pk |-> "metric", pe |-> 0, n |-> 1, d |-> 1] >>]
-  @@ "hectare" :> [base |-> FALSE, def |-> << [u |-> "are", pk |-> "metric", pe |-> 0, n |-> 1, d |-> 1] >>]
-  @@ "year" :> [base |-> FALSE, def |-> << [u |-> "day", pk |-> "metric", pe |-> 0, n |-> 1, d |-> 1] >>]
-  @@ "dyne" :> [base |-> FALSE, def |-> << [u |-> "newton", pk |-> "metric", pe |-> 0, n |-> 1, d |-> 1] >>]
-  @@ "inch" :> [base |-> FALSE, def |-> << [u |-> "metre", pk |-> "metric", pe |-> 0, n |-> 1, d |-> 1] >>]
-  @@ "micron" :> [base |-> FALSE, def |-> << [u |-> "metre", pk |-> "metric", pe |-> -6, n |-> 1, d |-> 1] >>]
-  @@ "mpsi" :> [base |-> FALSE, def |-> << [u |-> "psi", pk |-> "metric", pe |-> 0, n |-> 1, d |-> 1] >>]
-  @@ "lumen" :> [base |-> FALSE, def |-> << [u |-> "candela", pk |-> "metric", pe |-> 0, n |-> 1, d |-> 1], [u |-> "steradian", pk |-> "metric", pe |-> 0, n |-> 1, d |-> 1] >>]
-  @@ "hogshead" :> [base |-> FALSE, def |-> << [u |-> "gallon", pk |-> "metric", pe |-> 0, n |-> 1, d |-> 1] >>]
-  @@ "hundred" :> [base |-> FALSE, def |-> <<  >>]
-  @@ "minute" :> [base |-> FALSE, def |-> << [u |-> "second", pk |-> "metric", pe |-> 0, n |-> 1, d |-> 1] >>]
-  @@ "dozen" :> [base |-> FALSE, def |-> <<  >>]
-  @@ "barn" :> [base |-> FALSE, def |-> << [u |-> "metre", pk |-> "metric", pe |-> 0, n |-> 2, d |-> 1] >>]
-  @@ "planck_time" :> [base |-> FALSE, def |-> << [u |-> "joule", pk |-> "metric", pe |-> 0, n |-> 1, d |-> 2], [u |-> "hertz", pk |-> "metric", pe |-> 0, n |-> -1, d |-> 2], [u |-> "metre", pk |-> "metric", pe |-> 0, n |-> 3, d |-> 2], [u |-> "gram", pk |-> "metric", pe |-> 3, n |-> -1, d |-> 2], [u |-> "second", pk |-> "metric", pe |-> 0, n |-> -1, d |-> 1], [u |-> "metre", pk |-> "metric", pe |-> 0, n |-> -5, d |-> 2], [u |-> "second", pk |-> "metric", pe |-> 0, n |-> 5, d |-> 2] >>]
-  @@ "quadrillion" :> [base |-> FALSE, def |-> <<  >>]
-  @@ "oersted" :> [base |-> FALSE, def |-> << [u |-> "dyne", pk |-> "metric", pe |-> 0, n |-> 1, d |-> 1], [u |-> "maxwell", pk |-> "metric", pe |-> 0, n |-> -1, d |-> 1] >>]
-  @@ "barrel" :> [base |-> FALSE, def |-> << [u |-> "gallon", pk |-> "metric", pe |-> 0, n |-> 1, d |-> 1] >>]
-  @@ "million" :> [base |-> FALSE, def |-> <<  >>]
-  @@ "newton" :> [base |-> FALSE, def |-> << [u |-> "gram", pk |-> "metric", pe |-> 3, n |-> 1, d |-> 1], [u |-> "metre", pk |-> "metric", pe |-> 0, n |-> 1, d |-> 1], [u |-> "second", pk |-> "metric", pe |-> 0, n |-> -2, d |-> 1] >>]
-  @@ "yard" :> [base |-> FALSE, def |-> << [u |-> "foot", pk |-> "metric", pe |-> 0, n |-> 1, d |-> 1] >>]
-  @@ "permille" :> [base |-> FALSE, def |-> <<  >>]
-  @@ "therm" :> [base |-> FALSE, def |-> << [u |-> "BTU", pk |-> "metric", pe |-> 0, n |-> 1, d |-> 1] >>]
-  @@ "joule" :> [base |-> FALSE, def |-> << [u |-> "newton", pk |-> "metric", pe |-> 0, n |-> 1, d |-> 1], [u |-> "metre", pk |-> "metric", pe |-> 0, n |-> 1, d |-> 1] >>]
-  @@ "nit" :> [base |-> FALSE, def |-> << [u |-> "candela", pk |-> "metric", pe |-> 0, n |-> 1, d |-> 1], [u |-> "metre", pk |-> "metric", pe |-> 0, n |-> -2, d |-> 1] >>]
-  @@ "psi" :> [base |-> FALSE, def |-> << [u |-> "pascal", pk |-> "metric", pe |-> 3, n |-> 1, d |-> 1] >>]
-  @@ "rackunit" :> [base |-> FALSE, def |-> << [u |-> "metre", pk |-> "metric", pe |-> 0, n |-> 1, d |-> 1] >>]
-  @@ "gradian" :> [base |-> FALSE, def |-> << [u |-> "degree", pk |-> "metric", pe |-> 0, n |-> 1, d |-> 1] >>]
-  @@ "thou" :> [base |-> FALSE, def |-> << [u |-> "inch", pk |-> "metric", pe |-> 0, n |-> 1, d |-> 1] >>]
-  @@ "troy_ounce" :> [base |-> FALSE, def |-> << [u |-> "grain", pk |-> "metric", pe |-> 0, n |-> 1, d |-> 1] >>]
-  @@ "imperial_pint" :> [base |-> FALSE, def |-> << [u |-> "imperial_fluidounce", pk |-> "metric", pe |-> 0, n |-> 1, d |-> 1] >>]
-  @@ "cup" :> [base |-> FALSE, def |-> << [u |-> "pint", pk |-> "metric", pe |-> 0, n |-> 1, d |-> 1] >>]
-  @@ "ohm" :> [base |-> FALSE, def |-> << [u |-> "volt", pk |-> "metric", pe |-> 0, n |-> 1, d |-> 1], [u |-> "ampere", pk |-> "metric", pe |-> 0, n |-> -1, d |-> 1] >>]
-  @@ "partspertrillion" :> [base |-> FALSE, def |-> <<  >>]
-  @@ "percent" :> [base |-> FALSE, def |-> <<  >>]
-  @@ "planck_length" :> [base |-> FALSE, def |-> << [u |-> "joule", pk |-> "metric", pe |-> 0, n |-> 1, d |-> 2], [u |-> "hertz", pk |-> "metric", pe |-> 0, n |-> -1, d |-> 2], [u |-> "metre", pk |-> "metric", pe |-> 0, n |-> 3, d |-> 2], [u |-> "gram", pk |-> "metric", pe |-> 3, n |-> -1, d |-> 2], [u |-> "second", pk |-> "metric", pe |-> 0, n |-> -1, d |-> 1], [u |-> "metre", pk |-> "metric", pe |-> 0, n |-> -3, d |-> 2], [u |-> "second", pk |-> "metric", pe |-> 0, n |-> 3, d |-> 2] >>]
-  @@ "metric_teaspoon" :> [base |-> FALSE, def |-> << [u |-> "metric_tablespoon", pk |-> "metric", pe |-> 0, n |-> 1, d |-> 1] >>]
-  @@ "grain" :> [base |-> FALSE, def |-> << [u |-> "gram", pk |-> "metric", pe |-> -3, n |-> 1, d |-> 1] >>]
-  @@ "footcandle" :> [base |-> FALSE, def |-> << [u |-> "lumen", pk |-> "metric", pe |-> 0, n |-> 1, d |-> 1], [u |-> "foot", pk |-> "metric", pe |-> 0, n |-> -2, d |-> 1] >>]
-  @@ "trillion" :> [base |-> FALSE, def |-> <<  >>]
-  @@ "poise" :> [base |-> FALSE, def |-> << [u |-> "dyne", pk |-> "metric", pe |-> 0, n |-> 1, d |-> 1], [u |-> "second", pk |-> "metric", pe |-> 0, n |-> 1, d |-> 1], [u |-> "metre", pk |-> "metric", pe |-> -2, n |-> -2, d |-> 1] >>]
-  @@ "degree" :> [base |-> FALSE, def |-> << [u |-> "radian", pk |-> "metric", pe |-> 0, n |-> 1, d |-> 1] >>]
-  @@ "imperial_bushel" :> [base |-> FALSE, def |-> << [u |-> "imperial_gallon", pk |-> "metric", pe |-> 0, n |-> 1, d |-> 1] >>]
-  @@ "quintillion" :> [base |-> FALSE, def |-> <<  >>]
-  @@ "pascal" :> [base |-> FALSE, def |-> << [u |-> "newton", pk |-> "metric", pe |-> 0, n |-> 1, d |-> 1], [u |-> "metre", pk |-> "metric", pe |-> 0, n |-> -2, d |-> 1] >>]
-  @@ "foot" :> [base |-> FALSE, def |-> << [u |-> "inch", pk |-> "metric", pe |-> 0, n |-> 1, d |-> 1] >>]
-  @@ "week" :> [base |-> FALSE, def |-> << [u |-> "day", pk |-> "metric", pe |-> 0, n |-> 1, d |-> 1] >>]
-  @@ "imperial_fluid_drachm" :> [base |-> FALSE, def |-> << [u |-> "imperial_fluidounce", pk |-> "metric", pe |-> 0, n |-> 1, d |-> 1] >>]
-  @@ "katal" :> [base |-> FALSE, def |-> << [u |-> "mole", pk |-> "metric", pe |-> 0, n |-> 1, d |-> 1], [u |-> "second", pk |-> "metric", pe |-> 0, n |-> -1, d |-> 1] >>]
-  @@ "BTU" :> [base |-> FALSE, def |-> << [u |-> "joule", pk |-> "metric", pe |-> 0, n |-> 1, d |-> 1] >>]
-  @@ "pennyweight" :> [base |-> FALSE, def |-> << [u |-> "grain", pk |-> "metric", pe |-> 0, n |-> 1, d |-> 1] >>]
-  @@ "firkin" :> [base |-> FALSE, def |-> << [u |-> "pound", pk |-> "metric", pe |-> 0, n |-> 1, d |-> 1] >>]
-  @@ "partspermillion" :> [base |-> FALSE, def |-> <<  >>]
   @@ "decade" :> [base |-> FALSE, def |-> << [u |-> "year", pk |-> "metric", pe |-> 0, n |-> 1, d |-> 1] >>]
-  @@ "planck_temperature" :> [base |-> FALSE, def |-> << [u |-> "joule", pk |-> "metric", pe |-> 0, n |-> 1, d |-> 2], [u |-> "hertz", pk |-> "metric", pe |-> 0, n |-> -1, d |-> 2], [u |-> "metre", pk |-> "metric", pe |-> 0, n |-> 5, d |-> 2], [u |-> "second", pk |-> "metric", pe |-> 0, n |-> -5, d |-> 2], [u |-> "metre", pk |-> "metric", pe |-> 0, n |-> -3, d |-> 2], [u |-> "gram", pk |-> "metric", pe |-> 3, n |-> 1, d |-> 2], [u |-> "second", pk |-> "metric", pe |-> 0, n |-> 1, d |-> 1], [u |-> "joule", pk |-> "metric", pe |-> 0, n |-> -1, d |-> 1], [u |-> "kelvin", pk |-> "metric", pe |-> 0, n |-> 1, d |-> 1] >>]
-  @@ "long_ton" :> [base |-> FALSE, def |-> << [u |-> "pound", pk |-> "metric", pe |-> 0, n |-> 1, d |-> 1] >>]
-  @@ "dalton" :> [base |-> FALSE, def |-> << [u |-> "gram", pk |-> "metric", pe |-> 3, n |-> 1, d |-> 1] >>]
-  @@ "farad" :> [base |-> FALSE, def |-> << [u |-> "coulomb", pk |-> "metric", pe |-> 0, n |-> 1, d |-> 1], [u |-> "volt", pk |-> "metric", pe |-> 0, n |-> -1, d |-> 1] >>]
-  @@ "weber" :> [base |-> FALSE, def |-> << [u |-> "volt", pk |-> "metric", pe |-> 0, n |-> 1, d |-> 1], [u |-> "second", pk |-> "metric", pe |-> 0, n |-> 1, d |-> 1] >>]
-  @@ "bpm" :> [base |-> FALSE, def |-> << [u |-> "beat", pk |-> "metric", pe |-> 0, n |-> 1, d |-> 1], [u |-> "minute", pk |-> "metric", pe |-> 0, n |-> -1, d |-> 1] >>]
-  @@ "unix_ms" :> [base |-> FALSE, def |-> << [u |-> "unix_s", pk |-> "metric", pe |-> 0, n |-> 1, d |-> 1] >>]
-  @@ "maxwell" :> [base |-> FALSE, def |-> << [u |-> "gauss", pk |-> "metric", pe |-> 0, n |-> 1, d |-> 1], [u |-> "metre", pk |-> "metric", pe |-> -2, n |-> 2, d |-> 1] >>]
-  @@ "mmHg" :> [base |-> FALSE, def |-> << [u |-> "pascal", pk |-> "metric", pe |-> 0, n |-> 1, d |-> 1] >>]
-  @@ "byte" :> [base |-> FALSE, def |-> << [u |-> "bit", pk |-> "metric", pe |-> 0, n |-> 1, d |-> 1] >>]
-  @@ "stone" :> [base |-> FALSE, def |-> << [u |-> "pound", pk |-> "metric", pe |-> 0, n |-> 1, d |-> 1] >>]
-  @@ "tonne" :> [base |-> FALSE, def |-> << [u |-> "gram", pk |-> "metric", pe |-> 3, n |-> 1, d |-> 1] >>]
-  @@ "inHg" :> [base |-> FALSE, def |-> << [u |-> "inch", pk |-> "metric", pe |-> 0, n |-> 1, d |-> 1], [u |-> "Hg", pk |-> "metric", pe |-> 0, n |-> 1, d |-> 1] >>]
-  @@ "century" :> [base |-> FALSE, def |-> << [u |-> "year", pk |-> "metric", pe |-> 0, n |-> 1, d |-> 1] >>]
-  @@ "becquerel" :> [base |-> FALSE, def |-> << [u |-> "second", pk |-> "metric", pe |-> 0, n |-> -1, d |-> 1] >>]
-  @@ "stokes" :> [base |-> FALSE, def |-> << [u |-> "metre", pk |-> "metric", pe |-> -2, n |-> 2, d |-> 1], [u |-> "second", pk |-> "metric", pe |-> 0, n |-> -1, d |-> 1] >>]
-  @@ "mile" :> [base |-> FALSE, def |-> << [u |-> "yard", pk |-> "metric", pe |-> 0, n |-> 1, d |-> 1] >>]
-  @@ "knot" :> [base |-> FALSE, def |-> << [u |-> "metre", pk |-> "metric", pe |-> 0, n |-> 1, d |-> 1], [u |-> "second", pk |-> "metric", pe |-> 0, n |-> -1, d |-> 1] >>]
-  @@ "dpi" :> [base |-> FALSE, def |-> << [u |-> "dot", pk |-> "metric", pe |-> 0, n |-> 1, d |-> 1], [u |-> "inch", pk |-> "metric", pe |-> 0, n |-> -1, d |-> 1] >>]
-  @@ "coulomb" :> [base |-> FALSE, def |-> << [u |-> "ampere", pk |-> "metric", pe |-> 0, n |-> 1, d |-> 1], [u |-> "second", pk |-> "metric", pe |-> 0, n |-> 1, d |-> 1] >>]
-  @@ "pint" :> [base |-> FALSE, def |-> << [u |-> "gallon", pk |-> "metric", pe |-> 0, n |-> 1, d |-> 1] >>]
-  @@ "molar" :> [base |-> FALSE, def |-> << [u |-> "mole", pk |-> "metric", pe |-> 0, n |-> 1, d |-> 1], [u |-> "litre", pk |-> "metric", pe |-> 0, n |-> -1, d |-> 1] >>]
-  @@ "bps" :> [base |-> FALSE, def |-> << [u |-> "bit", pk |-> "metric", pe |-> 0, n |-> 1, d |-> 1], [u |-> "second", pk |-> "metric", pe |-> 0, n |-> -1, d |-> 1] >>]
-  @@ "rod" :> [base |-> FALSE, def |-> << [u |-> "foot", pk |-> "metric", pe |-> 0, n |-> 1, d |-> 1] >>]
-  @@ "are" :> [base |-> FALSE, def |-> << [u |-> "metre", pk |-> "metric", pe |-> 0, n |-> 2, d |-> 1] >>]
-  @@ "millennium" :> [base |-> FALSE, def |-> << [u |-> "year", pk |-> "metric", pe |-> 0, n |-> 1, d |-> 1] >>]
-  @@ "sievert" :> [base |-> FALSE, def |-> << [u |-> "joule", pk |-> "metric", pe |-> 0, n |-> 1, d |-> 1], [u |-> "gram", pk |-> "metric", pe |-> 3, n |-> -1, d |-> 1] >>]
-  @@ "imperial_tablespoon" :> [base |-> FALSE, def |-> << [u |-> "imperial_fluidounce", pk |-> "metric", pe |-> 0, n |-> 1, d |-> 1] >>]
-  @@ "atmosphere" :> [base |-> FALSE, def |-> << [u |-> "pascal", pk |-> "metric", pe |-> 0, n |-> 1, d |-> 1] >>]
-  @@ "tablespoon" :> [base |-> FALSE, def |-> << [u |-> "cup", pk |-> "metric", pe |-> 0, n |-> 1, d |-> 1] >>]
-  @@ "rpm" :> [base |-> FALSE, def |-> << [u |-> "minute", pk |-> "metric", pe |-> 0, n |-> -1, d |-> 1] >>]
-  @@ "amperehour" :> [base |-> FALSE, def |-> << [u |-> "ampere", pk |-> "metric", pe |-> 0, n |-> 1, d |-> 1], [u |-> "hour", pk |-> "metric", pe |-> 0, n |-> 1, d |-> 1] >>]
-  @@ "Hg" :> [base |-> FALSE, def |-> << [u |-> "mmHg", pk |-> "metric", pe |-> 0, n |-> 1, d |-> 1], [u |-> "metre", pk |-> "metric", pe |-> -3, n |-> -1, d |-> 1] >>]
-  @@ "gregorian_year" :> [base |-> FALSE, def |-> << [u |-> "day", pk |-> "metric", pe |-> 0, n |-> 1, d |-> 1] >>]
-  @@ "angstrom" :> [base |-> FALSE, def |-> << [u |-> "metre", pk |-> "metric", pe |-> 0, n |-> 1, d |-> 1] >>]
-  @@ "league" :> [base |-> FALSE, def |-> << [u |-> "mile", pk |-> "metric", pe |-> 0, n |-> 1, d |-> 1] >>]
-  @@ "electronvolt" :> [base |-> FALSE, def |-> << [u |-> "joule", pk |-> "metric", pe |-> 0, n |-> 1, d |-> 1] >>]
-  @@ "billion" :> [base |-> FALSE, def |-> <<  >>]
-  @@ "watt" :> [base |-> FALSE, def |-> << [u |-> "joule", pk |-> "metric", pe |-> 0, n |-> 1, d |-> 1], [u |-> "second", pk |-> "metric", pe |-> 0, n |-> -1, d |-> 1] >>]
-  @@ "Ry" :> [base |-> FALSE, def |-> << [u |-> "joule", pk |-> "metric", pe |-> 0, n |-> 1, d |-> 1], [u |-> "hertz", pk |-> "metric", pe |-> 0, n |-> -1, d |-> 1], [u |-> "metre", pk |-> "metric", pe |-> 0, n |-> 1, d |-> 1], [u |-> "second", pk |-> "metric", pe |-> 0, n |-> -1, d |-> 1], [u |-> "gram", pk |-> "metric", pe |-> 3, n |-> 1, d |-> 1], [u |-> "coulomb", pk |-> "metric", pe |-> 0, n |-> 4, d |-> 1], [u |-> "farad", pk |-> "metric", pe |-> 0, n |-> -2, d |-> 1], [u |-> "metre", pk |-> "metric", pe |-> 0, n |-> 2, d |-> 1], [u |-> "joule", pk |-> "metric", pe |-> 0, n |-> -3, d |-> 1], [u |-> "hertz", pk |-> "metric", pe |-> 0, n |-> 3, d |-> 1], [u |-> "metre", pk |-> "metric", pe |-> 0, n |-> -1, d |-> 1], [u |-> "second", pk |-> "metric", pe |-> 0, n |-> 1, d |-> 1] >>]
   @@ "hertz" :> [base |-> FALSE, def |-> << [u |-> "second", pk |-> "metric", pe |-> 0, n |-> -1, d |-> 1] >>]
-  @@ "day" :> [base |-> FALSE, def |-> << [u |-> "hour", pk |-> "metric", pe |-> 0, n |-> 1, d |-> 1] >>]
-  @@ "kph" :> [base |-> FALSE, def |-> << [u |-> "metre", pk |-> "metric", pe |-> 3, n |-> 1, d |-> 1], [u |-> "hour", pk |-> "metric", pe |-> 0, n |-> -1, d |-> 1] >>]
-  @@ "steradian" :> [base |-> FALSE, def |-> << [u |-> "radian", pk |-> "metric", pe |-> 0, n |-> 2, d |-> 1] >>]
-  @@ "parsec" :> [base |-> FALSE, def |-> << [u |-> "astronomicalunit", pk |-> "metric", pe |-> 0, n |-> 1, d |-> 1] >>]
-  @@ "erg" :> [base |-> FALSE, def |-> << [u |-> "dyne", pk |-> "metric", pe |-> 0, n |-> 1, d |-> 1], [u |-> "metre", pk |-> "metric", pe |-> -2, n |-> 1, d |-> 1] >>]
-  @@ "sidereal_day" :> [base |-> FALSE, def |-> << [u |-> "second", pk |-> "metric", pe |-> 0, n |-> 1, d |-> 1] >>]
-  @@ "thousand" :> [base |-> FALSE, def |-> <<  >>]
-  @@ "ounce" :> [base |-> FALSE, def |-> << [u |-> "pound", pk |-> "metric", pe |-> 0, n |-> 1, d |-> 1] >>]
-  @@ "arcsecond" :> [base |-> FALSE, def |-> << [u |-> "arcminute", pk |-> "metric", pe |-> 0, n |-> 1, d |-> 1] >>]
-  @@ "imperial_fluidounce" :> [base |-> FALSE, def |-> << [u |-> "litre", pk |-> "metric", pe |-> -3, n |-> 1, d |-> 1] >>]
-  @@ "ksi" :> [base |-> FALSE, def |-> << [u |-> "psi", pk |-> "metric", pe |-> 0, n |-> 1, d |-> 1] >>]
-  @@ "imperial_gill" :> [base |-> FALSE, def |-> << [u |-> "imperial_fluidounce", pk |-> "metric", pe |-> 0, n |-> 1, d |-> 1] >>]
-  @@ "smoot" :> [base |-> FALSE, def |-> << [u |-> "inch", pk |-> "metric", pe |-> 0, n |-> 1, d |-> 1] >>]
-  @@ "cc" :> [base |-> FALSE, def |-> << [u |-> "metre", pk |-> "metric", pe |-> -2, n |-> 3, d |-> 1] >>]
-  @@ "pound_force" :> [base |-> FALSE, def |-> << [u |-> "newton", pk |-> "metric", pe |-> 0, n |-> 1, d |-> 1] >>]
-  @@ "ppi" :> [base |-> FALSE, def |-> << [u |-> "pixel", pk |-> "metric", pe |-> 0, n |-> 1, d |-> 1], [u |-> "inch", pk |-> "metric", pe |-> 0, n |-> -1, d |-> 1] >>]
-  @@ "bar" :> [base |-> FALSE, def |-> << [u |-> "pascal", pk |-> "metric", pe |-> 3, n |-> 1, d |-> 1] >>]
-  @@ "molal" :> [base |-> FALSE, def |-> << [u |-> "mole", pk |-> "metric", pe |-> 0, n |-> 1, d |-> 1], [u |-> "gram", pk |-> "metric", pe |-> 3, n |-> -1, d |-> 1] >>]
-  @@ "pound" :> [base |-> FALSE, def |-> << [u |-> "grain", pk |-> "metric", pe |-> 0, n |-> 1, d |-> 1] >>]
-  @@ "partsperbillion" :> [base |-> FALSE, def |-> <<  >>]
-  @@ "planck_mass" :> [base |-> FALSE, def |-> << [u |-> "joule", pk |-> "metric", pe |-> 0, n |-> 1, d |-> 2], [u |-> "hertz", pk |-> "metric", pe |-> 0, n |-> -1, d |-> 2], [u |-> "metre", pk |-> "metric", pe |-> 0, n |-> 1, d |-> 2], [u |-> "second", pk |-> "metric", pe |-> 0, n |-> -1, d |-> 2], [u |-> "metre", pk |-> "metric", pe |-> 0, n |-> -3, d |-> 2], [u |-> "gram", pk |-> "metric", pe |-> 3, n |-> 1, d |-> 2], [u |-> "second", pk |-> "metric", pe |-> 0, n |-> 1, d |-> 1] >>]
-  @@ "month" :> [base |-> FALSE, def |-> << [u |-> "year", pk |-> "metric", pe |-> 0, n |-> 1, d |-> 1] >>]
-  @@ "lux" :> [base |-> FALSE, def |-> << [u |-> "lumen", pk |-> "metric", pe |-> 0, n |-> 1, d |-> 1], [u |-> "metre", pk |-> "metric", pe |-> 0, n |-> -2, d |-> 1] >>]
-  @@ "torr" :> [base |-> FALSE, def |-> << [u |-> "pascal", pk |-> "metric", pe |-> 0, n |-> 1, d |-> 1] >>]
-  @@ "furlong" :> [base |-> FALSE, def |-> << [u |-> "yard", pk |-> "metric", pe |-> 0, n |-> 1, d |-> 1] >>]
-  @@ "kilogram_force" :> [base |-> FALSE, def |-> << [u |-> "newton", pk |-> "metric", pe |-> 0, n |-> 1, d |-> 1] >>]
-  @@ "radian" :> [base |-> FALSE, def |-> << [u |-> "metre", pk |-> "metric", pe |-> 0, n |-> 1, d |-> 1], [u |-> "metre", pk |-> "metric", pe |-> 0, n |-> -1, d |-> 1] >>]
-  @@ "gauss" :> [base |-> FALSE, def |-> << [u |-> "tesla", pk |-> "metric", pe |-> -6, n |-> 1, d |-> 1] >>]
-  @@ "horsepower" :> [base |-> FALSE, def |-> << [u |-> "watt", pk |-> "metric", pe |-> 0, n |-> 1, d |-> 1] >>]
-  @@ "long_hundredweight" :> [base |-> FALSE, def |-> << [u |-> "stone", pk |-> "metric", pe |-> 0, n |-> 1, d |-> 1] >>]
-  @@ "gallon" :> [base |-> FALSE, def |-> << [u |-> "inch", pk |-> "metric", pe |-> 0, n |-> 3, d |-> 1] >>]
-  @@ "imperial_quart" :> [base |-> FALSE, def |-> << [u |-> "imperial_pint", pk |-> "metric", pe |-> 0, n |-> 1, d |-> 1] >>]
-  @@ "lightyear" :> [base |-> FALSE, def |-> << [u |-> "metre", pk |-> "metric", pe |-> 0, n |-> 1, d |-> 1] >>]
-  @@ "darcy" :> [base |-> FALSE, def |-> << [u |-> "bar", pk |-> "metric", pe |-> 0, n |-> 1, d |-> 1], [u |-> "atmosphere", pk |-> "metric", pe |-> 0, n |-> -1, d |-> 1], [u |-> "metre", pk |-> "metric", pe |-> -6, n |-> 2, d |-> 1] >>]
-  @@ "imperial_gallon" :> [base |-> FALSE, def |-> << [u |-> "imperial_quart", pk |-> "metric", pe |-> 0, n |-> 1, d |-> 1] >>]
-  @@ "teaspoon" :> [base |-> FALSE, def |-> << [u |-> "tablespoon", pk |-> "metric", pe |-> 0, n |-> 1, d |-> 1] >>]
-  @@ "revolution" :> [base |-> FALSE, def |-> << [u |-> "degree", pk |-> "metric", pe |-> 0, n |-> 1, d |-> 1] >>]
-  @@ "planck_energy" :> [base |-> FALSE, def |-> << [u |-> "joule", pk |-> "metric", pe |-> 0, n |-> 1, d |-> 2], [u |-> "hertz", pk |-> "metric", pe |-> 0, n |-> -1, d |-> 2], [u |-> "metre", pk |-> "metric", pe |-> 0, n |-> 5, d |-> 2], [u |-> "second", pk |-> "metric", pe |-> 0, n |-> -5, d |-> 2], [u |-> "metre", pk |-> "metric", pe |-> 0, n |-> -3, d |-> 2], [u |-> "gram", pk |-> "metric", pe |-> 3, n |-> 1, d |-> 2], [u |-> "second", pk |-> "metric", pe |-> 0, n |-> 1, d |-> 1] >>]
-  @@ "unix_µs" :> [base |-> FALSE, def |-> << [u |-> "unix_s", pk |-> "metric", pe |-> 0, n |-> 1, d |-> 1] >>]
-  @@ "gray" :> [base |-> FALSE, def |-> << [u |-> "joule", pk |-> "metric", pe |-> 0, n |-> 1, d |-> 1], [u |-> "gram", pk |-> "metric", pe |-> 3, n |-> -1, d |-> 1] >>]
-  @@ "hour" :> [base |-> FALSE, def |-> << [u |-> "minute", pk |-> "metric", pe |-> 0, n |-> 1, d |-> 1] >>]
-  @@ "calorie" :> [base |-> FALSE, def |-> << [u |-> "joule", pk |-> "metric", pe |-> 0, n |-> 1, d |-> 1] >>]
-  @@ "mph" :> [base |-> FALSE, def |-> << [u |-> "mile", pk |-> "metric", pe |-> 0, n |-> 1, d |-> 1], [u |-> "hour", pk |-> "metric", pe |-> 0, n |-> -1, d |-> 1] >>]
-  @@ "fluidounce" :> [base |-> FALSE, def |-> << [u |-> "tablespoon", pk |-> "metric", pe |-> 0, n |-> 1, d |-> 1] >>]
-  @@ "acre" :> [base |-> FALSE, def |-> << [u |-> "yard", pk |-> "metric", pe |-> 0, n |-> 2, d |-> 1] >>]
+  @@ "maxwell" :> [base |-> FALSE, def |-> << [u |-> "gauss", pk |-> "metric", pe |-> 0, n |-> 1, d |-> 1], [u |-> "metre", pk |-> "metric", pe |-> -2, n |-> 2, d |-> 1] >>]
+  @@ "planck_temperature" :> [base |-> FALSE, def |-> << [u |-> "joule", pk |-> "metric", pe |-> 0, n |-> 1, d |-> 2], [u |-> "hertz", pk |-> "metric", pe |-> 0, n |-> -1, d |-> 2], [u |-> "metre", pk |-> "metric", pe |-> 0, n |-> 5, d |-> 2], [u |-> "second", pk |-> "metric", pe |-> 0, n |-> -5, d |-> 2], [u |-> "metre", pk |-> "metric", pe |-> 0, n |-> -3, d |-> 2], [u |-> "gram", pk |-> "metric", pe |-> 3, n |-> 1, d |-> 2], [u |-> "second", pk |-> "metric", pe |-> 0, n |-> 1, d |-> 1], [u |-> "joule", pk |-> "metric", pe |-> 0, n |-> -1, d |-> 1], [u |-> "kelvin", pk |-> "metric", pe |-> 0, n |-> 1, d |-> 1] >>]
   @@ "siemens" :> [base |-> FALSE, def |-> << [u |-> "ohm", pk |-> "metric", pe |-> 0, n |-> -1, d |-> 1] >>]
-  @@ "imperial_teaspoon" :> [base |-> FALSE, def |-> << [u |-> "imperial_tablespoon", pk |-> "metric", pe |-> 0, n |-> 1, d |-> 1] >>]
-  @@ "metric_tablespoon" :> [base |-> FALSE, def |-> << [u |-> "litre", pk |-> "metric", pe |-> -3, n |-> 1, d |-> 1] >>]
-  @@ "fps" :> [base |-> FALSE, def |-> << [u |-> "frame", pk |-> "metric", pe |-> 0, n |-> 1, d |-> 1], [u |-> "second", pk |-> "metric", pe |-> 0, n |-> -1, d |-> 1] >>]
-  @@ "turn" :> [base |-> FALSE, def |-> << [u |-> "radian", pk |-> "metric", pe |-> 0, n |-> 1, d |-> 1] >>]
   @@ "fermi" :> [base |-> FALSE, def |-> << [u |-> "metre", pk |-> "metric", pe |-> -15, n |-> 1, d |-> 1] >>]
-  @@ "julian_year" :> [base |-> FALSE, def |-> << [u |-> "day", pk |-> "metric", pe |-> 0, n |-> 1, d |-> 1] >>]
+  @@ "byte" :> [base |-> FALSE, def |-> << [u |-> "bit", pk |-> "metric", pe |-> 0, n |-> 1, d |-> 1] >>]
+  @@ "becquerel" :> [base |-> FALSE, def |-> << [u |-> "second", pk |-> "metric", pe |-> 0, n |-> -1, d |-> 1] >>]
+  @@ "kph" :> [base |-> FALSE, def |-> << [u |-> "metre", pk |-> "metric", pe |-> 3, n |-> 1, d |-> 1], [u |-> "hour", pk |-> "metric", pe |-> 0, n |-> -1, d |-> 1] >>]
+  @@ "ppi" :> [base |-> FALSE, def |-> << [u |-> "pixel", pk |-> "metric", pe |-> 0, n |-> 1, d |-> 1], [u |-> "inch", pk |-> "metric", pe |-> 0, n |-> -1, d |-> 1] >>]
+  @@ "pound_force" :> [base |-> FALSE, def |-> << [u |-> "newton", pk |-> "metric", pe |-> 0, n |-> 1, d |-> 1] >>]
+  @@ "Ry" :> [base |-> FALSE, def |-> << [u |-> "joule", pk |-> "metric", pe |-> 0, n |-> 1, d |-> 1], [u |-> "hertz", pk |-> "metric", pe |-> 0, n |-> -1, d |-> 1], [u |-> "metre", pk |-> "metric", pe |-> 0, n |-> 1, d |-> 1], [u |-> "second", pk |-> "metric", pe |-> 0, n |-> -1, d |-> 1], [u |-> "gram", pk |-> "metric", pe |-> 3, n |-> 1, d |-> 1], [u |-> "coulomb", pk |-> "metric", pe |-> 0, n |-> 4, d |-> 1], [u |-> "farad", pk |-> "metric", pe |-> 0, n |-> -2, d |-> 1], [u |-> "metre", pk |-> "metric", pe |-> 0, n |-> 2, d |-> 1], [u |-> "joule", pk |-> "metric", pe |-> 0, n |-> -3, d |-> 1], [u |-> "hertz", pk |-> "metric", pe |-> 0, n |-> 3, d |-> 1], [u |-> "metre", pk |-> "metric", pe |-> 0, n |-> -1, d |-> 1], [u |-> "second", pk |-> "metric", pe |-> 0, n |-> 1, d |-> 1] >>]
+  @@ "molal" :> [base |-> FALSE, def |-> << [u |-> "mole", pk |-> "metric", pe |-> 0, n |-> 1, d |-> 1], [u |-> "gram", pk |-> "metric", pe |-> 3, n |-> -1, d |-> 1] >>]
+  @@ "kilogram_force" :> [base |-> FALSE, def |-> << [u |-> "newton", pk |-> "metric", pe |-> 0, n |-> 1, d |-> 1] >>]
+  @@ "lux" :> [base |-> FALSE, def |-> << [u |-> "lumen", pk |-> "metric", pe |-> 0, n |-> 1, d |-> 1], [u |-> "metre", pk |-> "metric", pe |-> 0, n |-> -2, d |-> 1] >>]
+  @@ "therm" :> [base |-> FALSE, def |-> << [u |-> "BTU", pk |-> "metric", pe |-> 0, n |-> 1, d |-> 1] >>]
+  @@ "firkin" :> [base |-> FALSE, def |-> << [u |-> "pound", pk |-> "metric", pe |-> 0, n |-> 1, d |-> 1] >>]
+  @@ "astronomicalunit" :> [base |-> FALSE, def |-> << [u |-> "metre", pk |-> "metric", pe |-> 0, n |-> 1, d |-> 1] >>]
+  @@ "trillion" :> [base |-> FALSE, def |-> <<  >>]
   @@ "footballfield" :> [base |-> FALSE, def |-> << [u |-> "metre", pk |-> "metric", pe |-> 0, n |-> 1, d |-> 1], [u |-> "metre", pk |-> "metric", pe |-> 0, n |-> 1, d |-> 1] >>]
-  @@ "partsperquadrillion" :> [base |-> FALSE, def |-> <<  >>]
+  @@ "year" :> [base |-> FALSE, def |-> << [u |-> "day", pk |-> "metric", pe |-> 0, n |-> 1, d |-> 1] >>]
+  @@ "Hg" :> [base |-> FALSE, def |-> << [u |-> "mmHg", pk |-> "metric", pe |-> 0, n |-> 1, d |-> 1], [u |-> "metre", pk |-> "metric", pe |-> -3, n |-> -1, d |-> 1] >>]
+  @@ "tablespoon" :> [base |-> FALSE, def |-> << [u |-> "cup", pk |-> "metric", pe |-> 0, n |-> 1, d |-> 1] >>]
+  @@ "gregorian_year" :> [base |-> FALSE, def |-> << [u |-> "day", pk |-> "metric", pe |-> 0, n |-> 1, d |-> 1] >>]
+  @@ "litre" :> [base |-> FALSE, def |-> << [u |-> "metre", pk |-> "metric", pe |-> -1, n |-> 3, d |-> 1] >>]
+  @@ "rod" :> [base |-> FALSE, def |-> << [u |-> "foot", pk |-> "metric", pe |-> 0, n |-> 1, d |-> 1] >>]
+  @@ "imperial_fluid_drachm" :> [base |-> FALSE, def |-> << [u |-> "imperial_fluidounce", pk |-> "metric", pe |-> 0, n |-> 1, d |-> 1] >>]
+  @@ "unix_µs" :> [base |-> FALSE, def |-> << [u |-> "unix_s", pk |-> "metric", pe |-> 0, n |-> 1, d |-> 1] >>]
   @@ "fortnight" :> [base |-> FALSE, def |-> << [u |-> "day", pk |-> "metric", pe |-> 0, n |-> 1, d |-> 1] >>]
   @@ "watthour" :> [base |-> FALSE, def |-> << [u |-> "watt", pk |-> "metric", pe |-> 0, n |-> 1, d |-> 1], [u |-> "hour", pk |-> "metric", pe |-> 0, n |-> 1, d |-> 1] >>]
+  @@ "foot" :> [base |-> FALSE, def |-> << [u |-> "inch", pk |-> "metric", pe |-> 0, n |-> 1, d |-> 1] >>]
+  @@ "revolution" :> [base |-> FALSE, def |-> << [u |-> "degree", pk |-> "metric", pe |-> 0, n |-> 1, d |-> 1] >>]
+  @@ "bar" :> [base |-> FALSE, def |-> << [u |-> "pascal", pk |-> "metric", pe |-> 3, n |-> 1, d |-> 1] >>]
+  @@ "lumen" :> [base |-> FALSE, def |-> << [u |-> "candela", pk |-> "metric", pe |-> 0, n |-> 1, d |-> 1], [u |-> "steradian", pk |-> "metric", pe |-> 0, n |-> 1, d |-> 1] >>]
+  @@ "nit" :> [base |-> FALSE, def |-> << [u |-> "candela", pk |-> "metric", pe |-> 0, n |-> 1, d |-> 1], [u |-> "metre", pk |-> "metric", pe |-> 0, n |-> -2, d |-> 1] >>]
+  @@ "long_hundredweight" :> [base |-> FALSE, def |-> << [u |-> "stone", pk |-> "metric", pe |-> 0, n |-> 1, d |-> 1] >>]
+  @@ "thousand" :> [base |-> FALSE, def |-> <<  >>]
+  @@ "partspermillion" :> [base |-> FALSE, def |-> <<  >>]
+  @@ "tesla" :> [base |-> FALSE, def |-> << [u |-> "weber", pk |-> "metric", pe |-> 0, n |-> 1, d |-> 1], [u |-> "metre", pk |-> "metric", pe |-> 0, n |-> -2, d |-> 1] >>]
+  @@ "imperial_bushel" :> [base |-> FALSE, def |-> << [u |-> "imperial_gallon", pk |-> "metric", pe |-> 0, n |-> 1, d |-> 1] >>]
+  @@ "imperial_tablespoon" :> [base |-> FALSE, def |-> << [u |-> "imperial_fluidounce", pk |-> "metric", pe |-> 0, n |-> 1, d |-> 1] >>]
+  @@ "fluidounce" :> [base |-> FALSE, def |-> << [u |-> "tablespoon", pk |-> "metric", pe |-> 0, n |-> 1, d |-> 1] >>]
+  @@ "planck_length" :> [base |-> FALSE, def |-> << [u |-> "joule", pk |-> "metric", pe |-> 0, n |-> 1, d |-> 2], [u |-> "hertz", pk |-> "metric", pe |-> 0, n |-> -1, d |-> 2], [u |-> "metre", pk |-> "metric", pe |-> 0, n |-> 3, d |-> 2], [u |-> "gram", pk |-> "metric", pe |-> 3, n |-> -1, d |-> 2], [u |-> "second", pk |-> "metric", pe |-> 0, n |-> -1, d |-> 1], [u |-> "metre", pk |-> "metric", pe |-> 0, n |-> -3, d |-> 2], [u |-> "second", pk |-> "metric", pe |-> 0, n |-> 3, d |-> 2] >>]
+  @@ "thou" :> [base |-> FALSE, def |-> << [u |-> "inch", pk |-> "metric", pe |-> 0, n |-> 1, d |-> 1] >>]
+  @@ "partspertrillion" :> [base |-> FALSE, def |-> <<  >>]
+  @@ "month" :> [base |-> FALSE, def |-> << [u |-> "year", pk |-> "metric", pe |-> 0, n |-> 1, d |-> 1] >>]
+  @@ "imperial_gallon" :> [base |-> FALSE, def |-> << [u |-> "imperial_quart", pk |-> "metric", pe |-> 0, n |-> 1, d |-> 1] >>]
+  @@ "farad" :> [base |-> FALSE, def |-> << [u |-> "coulomb", pk |-> "metric", pe |-> 0, n |-> 1, d |-> 1], [u |-> "volt", pk |-> "metric", pe |-> 0, n |-> -1, d |-> 1] >>]
+  @@ "horsepower" :> [base |-> FALSE, def |-> << [u |-> "watt", pk |-> "metric", pe |-> 0, n |-> 1, d |-> 1] >>]
+  @@ "angstrom" :> [base |-> FALSE, def |-> << [u |-> "metre", pk |-> "metric", pe |-> 0, n |-> 1, d |-> 1] >>]
   @@ "KB" :> [base |-> FALSE, def |-> << [u |-> "byte", pk |-> "metric", pe |-> 3, n |-> 1, d |-> 1] >>]
+  @@ "hundred" :> [base |-> FALSE, def |-> <<  >>]
+  @@ "partsperquadrillion" :> [base |-> FALSE, def |-> <<  >>]
+  @@ "arcminute" :> [base |-> FALSE, def |-> << [u |-> "degree", pk |-> "metric", pe |-> 0, n |-> 1, d |-> 1] >>]
+  @@ "turn" :> [base |-> FALSE, def |-> << [u |-> "radian", pk |-> "metric", pe |-> 0, n |-> 1, d |-> 1] >>]
+  @@ "mile" :> [base |-> FALSE, def |-> << [u |-> "yard", pk |-> "metric", pe |-> 0, n |-> 1, d |-> 1] >>]
+  @@ "fathom" :> [base |-> FALSE, def |-> << [u |-> "yard", pk |-> "metric", pe |-> 0, n |-> 1, d |-> 1] >>]
+  @@ "erg" :> [base |-> FALSE, def |-> << [u |-> "dyne", pk |-> "metric", pe |-> 0, n |-> 1, d |-> 1], [u |-> "metre", pk |-> "metric", pe |-> -2, n |-> 1, d |-> 1] >>]
+  @@ "imperial_teaspoon" :> [base |-> FALSE, def |-> << [u |-> "imperial_tablespoon", pk |-> "metric", pe |-> 0, n |-> 1, d |-> 1] >>]
+  @@ "coulomb" :> [base |-> FALSE, def |-> << [u |-> "ampere", pk |-> "metric", pe |-> 0, n |-> 1, d |-> 1], [u |-> "second", pk |-> "metric", pe |-> 0, n |-> 1, d |-> 1] >>]
+  @@ "micron" :> [base |-> FALSE, def |-> << [u |-> "metre", pk |-> "metric", pe |-> -6, n |-> 1, d |-> 1] >>]
+  @@ "cup" :> [base |-> FALSE, def |-> << [u |-> "pint", pk |-> "metric", pe |-> 0, n |-> 1, d |-> 1] >>]
+  @@ "week" :> [base |-> FALSE, def |-> << [u |-> "day", pk |-> "metric", pe |-> 0, n |-> 1, d |-> 1] >>]
+  @@ "oersted" :> [base |-> FALSE, def |-> << [u |-> "dyne", pk |-> "metric", pe |-> 0, n |-> 1, d |-> 1], [u |-> "maxwell", pk |-> "metric", pe |-> 0, n |-> -1, d |-> 1] >>]
+  @@ "dpi" :> [base |-> FALSE, def |-> << [u |-> "dot", pk |-> "metric", pe |-> 0, n |-> 1, d |-> 1], [u |-> "inch", pk |-> "metric", pe |-> 0, n |-> -1, d |-> 1] >>]
+  @@ "knot" :> [base |-> FALSE, def |-> << [u |-> "metre", pk |-> "metric", pe |-> 0, n |-> 1, d |-> 1], [u |-> "second", pk |-> "metric", pe |-> 0, n |-> -1, d |-> 1] >>]
+  @@ "thermie" :> [base |-> FALSE, def |-> << [u |-> "calorie", pk |-> "metric", pe |-> 3, n |-> 1, d |-> 1] >>]
+  @@ "inHg" :> [base |-> FALSE, def |-> << [u |-> "inch", pk |-> "metric", pe |-> 0, n |-> 1, d |-> 1], [u |-> "Hg", pk |-> "metric", pe |-> 0, n |-> 1, d |-> 1] >>]
+  @@ "fps" :> [base |-> FALSE, def |-> << [u |-> "frame", pk |-> "metric", pe |-> 0, n |-> 1, d |-> 1], [u |-> "second", pk |-> "metric", pe |-> 0, n |-> -1, d |-> 1] >>]
+  @@ "tonne" :> [base |-> FALSE, def |-> << [u |-> "gram", pk |-> "metric", pe |-> 3, n |-> 1, d |-> 1] >>]
+  @@ "minute" :> [base |-> FALSE, def |-> << [u |-> "second", pk |-> "metric", pe |-> 0, n |-> 1, d |-> 1] >>]
+  @@ "yard" :> [base |-> FALSE, def |-> << [u |-> "foot", pk |-> "metric", pe |-> 0, n |-> 1, d |-> 1] >>]
+  @@ "smoot" :> [base |-> FALSE, def |-> << [u |-> "inch", pk |-> "metric", pe |-> 0, n |-> 1, d |-> 1] >>]
+  @@ "psi" :> [base |-> FALSE, def |-> << [u |-> "pascal", pk |-> "metric", pe |-> 3, n |-> 1, d |-> 1] >>]
+  @@ "rpm" :> [base |-> FALSE, def |-> << [u |-> "minute", pk |-> "metric", pe |-> 0, n |-> -1, d |-> 1] >>]
+  @@ "planck_time" :> [base |-> FALSE, def |-> << [u |-> "joule", pk |-> "metric", pe |-> 0, n |-> 1, d |-> 2], [u |-> "hertz", pk |-> "metric", pe |-> 0, n |-> -1, d |-> 2], [u |-> "metre", pk |-> "metric", pe |-> 0, n |-> 3, d |-> 2], [u |-> "gram", pk |-> "metric", pe |-> 3, n |-> -1, d |-> 2], [u |-> "second", pk |-> "metric", pe |-> 0, n |-> -1, d |-> 1], [u |-> "metre", pk |-> "metric", pe |-> 0, n |-> -5, d |-> 2], [u |-> "second", pk |-> "metric", pe |-> 0, n |-> 5, d |-> 2] >>]
+  @@ "teaspoon" :> [base |-> FALSE, def |-> << [u |-> "tablespoon", pk |-> "metric", pe |-> 0, n |-> 1, d |-> 1] >>]
+  @@ "century" :> [base |-> FALSE, def |-> << [u |-> "year", pk |-> "metric", pe |-> 0, n |-> 1, d |-> 1] >>]
+  @@ "gradian" :> [base |-> FALSE, def |-> << [u |-> "degree", pk |-> "metric", pe |-> 0, n |-> 1, d |-> 1] >>]
+  @@ "million" :> [base |-> FALSE, def |-> <<  >>]
+  @@ "billion" :> [base |-> FALSE, def |-> <<  >>]
+  @@ "joule" :> [base |-> FALSE, def |-> << [u |-> "newton", pk |-> "metric", pe |-> 0, n |-> 1, d |-> 1], [u |-> "metre", pk |-> "metric", pe |-> 0, n |-> 1, d |-> 1] >>]
+  @@ "permille" :> [base |-> FALSE, def |-> <<  >>]
+  @@ "day" :> [base |-> FALSE, def |-> << [u |-> "hour", pk |-> "metric", pe |-> 0, n |-> 1, d |-> 1] >>]
+  @@ "ounce_force" :> [base |-> FALSE, def |-> << [u |-> "pound_force", pk |-> "metric", pe |-> 0, n |-> 1, d |-> 1] >>]
+  @@ "nautical_mile" :> [base |-> FALSE, def |-> << [u |-> "metre", pk |-> "metric", pe |-> 0, n |-> 1, d |-> 1] >>]
+  @@ "pennyweight" :> [base |-> FALSE, def |-> << [u |-> "grain", pk |-> "metric", pe |-> 0, n |-> 1, d |-> 1] >>]
+  @@ "bps" :> [base |-> FALSE, def |-> << [u |-> "bit", pk |-> "metric", pe |-> 0, n |-> 1, d |-> 1], [u |-> "second", pk |-> "metric", pe |-> 0, n |-> -1, d |-> 1] >>]
+  @@ "atmosphere" :> [base |-> FALSE, def |-> << [u |-> "pascal", pk |-> "metric", pe |-> 0, n |-> 1, d |-> 1] >>]
+  @@ "planck_mass" :> [base |-> FALSE, def |-> << [u |-> "joule", pk |-> "metric", pe |-> 0, n |-> 1, d |-> 2], [u |-> "hertz", pk |-> "metric", pe |-> 0, n |-> -1, d |-> 2], [u |-> "metre", pk |-> "metric", pe |-> 0, n |-> 1, d |-> 2], [u |-> "second", pk |-> "metric", pe |-> 0, n |-> -1, d |-> 2], [u |-> "metre", pk |-> "metric", pe |-> 0, n |-> -3, d |-> 2], [u |-> "gram", pk |-> "metric", pe |-> 3, n |-> 1, d |-> 2], [u |-> "second", pk |-> "metric", pe |-> 0, n |-> 1, d |-> 1] >>]
+  @@ "gray" :> [base |-> FALSE, def |-> << [u |-> "joule", pk |-> "metric", pe |-> 0, n |-> 1, d |-> 1], [u |-> "gram", pk |-> "metric", pe |-> 3, n |-> -1, d |-> 1] >>]
+  @@ "ksi" :> [base |-> FALSE, def |-> << [u |-> "psi", pk |-> "metric", pe |-> 0, n |-> 1, d |-> 1] >>]
+  @@ "dyne" :> [base |-> FALSE, def |-> << [u |-> "newton", pk |-> "metric", pe |-> 0, n |-> 1, d |-> 1] >>]
+  @@ "hour" :> [base |-> FALSE, def |-> << [u |-> "minute", pk |-> "metric", pe |-> 0, n |-> 1, d |-> 1] >>]
+  @@ "gauss" :> [base |-> FALSE, def |-> << [u |-> "tesla", pk |-> "metric", pe |-> -6, n |-> 1, d |-> 1] >>]
+  @@ "degree" :> [base |-> FALSE, def |-> << [u |-> "radian", pk |-> "metric", pe |-> 0, n |-> 1, d |-> 1] >>]
+  @@ "ohm" :> [base |-> FALSE, def |-> << [u |-> "volt", pk |-> "metric", pe |-> 0, n |-> 1, d |-> 1], [u |-> "ampere", pk |-> "metric", pe |-> 0, n |-> -1, d |-> 1] >>]
+  @@ "lightyear" :> [base |-> FALSE, def |-> << [u |-> "metre", pk |-> "metric", pe |-> 0, n |-> 1, d |-> 1] >>]
+  @@ "grain" :> [base |-> FALSE, def |-> << [u |-> "gram", pk |-> "metric", pe |-> -3, n |-> 1, d |-> 1] >>]
+  @@ "ounce" :> [base |-> FALSE, def |-> << [u |-> "pound", pk |-> "metric", pe |-> 0, n |-> 1, d |-> 1] >>]
+  @@ "amperehour" :> [base |-> FALSE, def |-> << [u |-> "ampere", pk |-> "metric", pe |-> 0, n |-> 1, d |-> 1], [u |-> "hour", pk |-> "metric", pe |-> 0, n |-> 1, d |-> 1] >>]
+  @@ "steradian" :> [base |-> FALSE, def |-> << [u |-> "radian", pk |-> "metric", pe |-> 0, n |-> 2, d |-> 1] >>]
+  @@ "quadrillion" :> [base |-> FALSE, def |-> <<  >>]
+  @@ "henry" :> [base |-> FALSE, def |-> << [u |-> "weber", pk |-> "metric", pe |-> 0, n |-> 1, d |-> 1], [u |-> "ampere", pk |-> "metric", pe |-> 0, n |-> -1, d |-> 1] >>]
+  @@ "league" :> [base |-> FALSE, def |-> << [u |-> "mile", pk |-> "metric", pe |-> 0, n |-> 1, d |-> 1] >>]
+  @@ "inch" :> [base |-> FALSE, def |-> << [u |-> "metre", pk |-> "metric", pe |-> 0, n |-> 1, d |-> 1] >>]
+  @@ "radian" :> [base |-> FALSE, def |-> << [u |-> "metre", pk |-> "metric", pe |-> 0, n |-> 1, d |-> 1], [u |-> "metre", pk |-> "metric", pe |-> 0, n |-> -1, d |-> 1] >>]
+  @@ "partsperbillion" :> [base |-> FALSE, def |-> <<  >>]
+  @@ "millennium" :> [base |-> FALSE, def |-> << [u |-> "year", pk |-> "metric", pe |-> 0, n |-> 1, d |-> 1] >>]
+  @@ "electronvolt" :> [base |-> FALSE, def |-> << [u |-> "joule", pk |-> "metric", pe |-> 0, n |-> 1, d |-> 1] >>]
+  @@ "mmHg" :> [base |-> FALSE, def |-> << [u |-> "pascal", pk |-> "metric", pe |-> 0, n |-> 1, d |-> 1] >>]
+  @@ "metric_teaspoon" :> [base |-> FALSE, def |-> << [u |-> "metric_tablespoon", pk |-> "metric", pe |-> 0, n |-> 1, d |-> 1] >>]
+  @@ "imperial_pint" :> [base |-> FALSE, def |-> << [u |-> "imperial_fluidounce", pk |-> "metric", pe |-> 0, n |-> 1, d |-> 1] >>]
+  @@ "stokes" :> [base |-> FALSE, def |-> << [u |-> "metre", pk |-> "metric", pe |-> -2, n |-> 2, d |-> 1], [u |-> "second", pk |-> "metric", pe |-> 0, n |-> -1, d |-> 1] >>]
+  @@ "bpm" :> [base |-> FALSE, def |-> << [u |-> "beat", pk |-> "metric", pe |-> 0, n |-> 1, d |-> 1], [u |-> "minute", pk |-> "metric", pe |-> 0, n |-> -1, d |-> 1] >>]
   @@ "mpg" :> [base |-> FALSE, def |-> << [u |-> "mile", pk |-> "metric", pe |-> 0, n |-> 1, d |-> 1], [u |-> "gallon", pk |-> "metric", pe |-> 0, n |-> -1, d |-> 1] >>]
+  @@ "sidereal_day" :> [base |-> FALSE, def |-> << [u |-> "second", pk |-> "metric", pe |-> 0, n |-> 1, d |-> 1] >>]
+  @@ "parsec" :> [base |-> FALSE, def |-> << [u |-> "astronomicalunit", pk |-> "metric", pe |-> 0, n |-> 1, d |-> 1] >>]
+  @@ "quintillion" :> [base |-> FALSE, def |-> <<  >>]
+  @@ "calorie" :> [base |-> FALSE, def |-> << [u |-> "joule", pk |-> "metric", pe |-> 0, n |-> 1, d |-> 1] >>]
+  @@ "cc" :> [base |-> FALSE, def |-> << [u |-> "metre", pk |-> "metric", pe |-> -2, n |-> 3, d |-> 1] >>]
+  @@ "poise" :> [base |-> FALSE, def |-> << [u |-> "dyne", pk |-> "metric", pe |-> 0, n |-> 1, d |-> 1], [u |-> "second", pk |-> "metric", pe |-> 0, n |-> 1, d |-> 1], [u |-> "metre", pk |-> "metric", pe |-> -2, n |-> -2, d |-> 1] >>]
+  @@ "metric_tablespoon" :> [base |-> FALSE, def |-> << [u |-> "litre", pk |-> "metric", pe |-> -3, n |-> 1, d |-> 1] >>]
+  @@ "pascal" :> [base |-> FALSE, def |-> << [u |-> "newton", pk |-> "metric", pe |-> 0, n |-> 1, d |-> 1], [u |-> "metre", pk |-> "metric", pe |-> 0, n |-> -2, d |-> 1] >>]
+  @@ "imperial_quart" :> [base |-> FALSE, def |-> << [u |-> "imperial_pint", pk |-> "metric", pe |-> 0, n |-> 1, d |-> 1] >>]
+  @@ "stone" :> [base |-> FALSE, def |-> << [u |-> "pound", pk |-> "metric", pe |-> 0, n |-> 1, d |-> 1] >>]
+  @@ "arcsecond" :> [base |-> FALSE, def |-> << [u |-> "arcminute", pk |-> "metric", pe |-> 0, n |-> 1, d |-> 1] >>]
+  @@ "rackunit" :> [base |-> FALSE, def |-> << [u |-> "metre", pk |-> "metric", pe |-> 0, n |-> 1, d |-> 1] >>]
+  @@ "barrel" :> [base |-> FALSE, def |-> << [u |-> "gallon", pk |-> "metric", pe |-> 0, n |-> 1, d |-> 1] >>]
+  @@ "unix_ms" :> [base |-> FALSE, def |-> << [u |-> "unix_s", pk |-> "metric", pe |-> 0, n |-> 1, d |-> 1] >>]
+  @@ "dalton" :> [base |-> FALSE, def |-> << [u |-> "gram", pk |-> "metric", pe |-> 3, n |-> 1, d |-> 1] >>]
+  @@ "torr" :> [base |-> FALSE, def |-> << [u |-> "pascal", pk |-> "metric", pe |-> 0, n |-> 1, d |-> 1] >>]
+  @@ "newton" :> [base |-> FALSE, def |-> << [u |-> "gram", pk |-> "metric", pe |-> 3, n |-> 1, d |-> 1], [u |-> "metre", pk |-> "metric", pe |-> 0, n |-> 1, d |-> 1], [u |-> "second", pk |-> "metric", pe |-> 0, n |-> -2, d |-> 1] >>]
+  @@ "julian_year" :> [base |-> FALSE, def |-> << [u |-> "day", pk |-> "metric", pe |-> 0, n |-> 1, d |-> 1] >>]
+  @@ "dozen" :> [base |-> FALSE, def |-> <<  >>]
+  @@ "mph" :> [base |-> FALSE, def |-> << [u |-> "mile", pk |-> "metric", pe |-> 0, n |-> 1, d |-> 1], [u |-> "hour", pk |-> "metric", pe |-> 0, n |-> -1, d |-> 1] >>]
+  @@ "long_ton" :> [base |-> FALSE, def |-> << [u |-> "pound", pk |-> "metric", pe |-> 0, n |-> 1, d |-> 1] >>]
+  @@ "volt" :> [base |-> FALSE, def |-> << [u |-> "gram", pk |-> "metric", pe |-> 3, n |-> 1, d |-> 1], [u |-> "metre", pk |-> "metric", pe |-> 0, n |-> 2, d |-> 1], [u |-> "second", pk |-> "metric", pe |-> 0, n |-> -3, d |-> 1], [u |-> "ampere", pk |-> "metric", pe |-> 0, n |-> -1, d |-> 1] >>]
+  @@ "are" :> [base |-> FALSE, def |-> << [u |-> "metre", pk |-> "metric", pe |-> 0, n |-> 2, d |-> 1] >>]
+  @@ "acre" :> [base |-> FALSE, def |-> << [u |-> "yard", pk |-> "metric", pe |-> 0, n |-> 2, d |-> 1] >>]
+  @@ "weber" :> [base |-> FALSE, def |-> << [u |-> "volt", pk |-> "metric", pe |-> 0, n |-> 1, d |-> 1], [u |-> "second", pk |-> "metric", pe |-> 0, n |-> 1, d |-> 1] >>]
+  @@ "barn" :> [base |-> FALSE, def |-> << [u |-> "metre", pk |-> "metric", pe |-> 0, n |-> 2, d |-> 1] >>]
+  @@ "footcandle" :> [base |-> FALSE, def |-> << [u |-> "lumen", pk |-> "metric", pe |-> 0, n |-> 1, d |-> 1], [u |-> "foot", pk |-> "metric", pe |-> 0, n |-> -2, d |-> 1] >>]
+  @@ "watt" :> [base |-> FALSE, def |-> << [u |-> "joule", pk |-> "metric", pe |-> 0, n |-> 1, d |-> 1], [u |-> "second", pk |-> "metric", pe |-> 0, n |-> -1, d |-> 1] >>]
+  @@ "imperial_gill" :> [base |-> FALSE, def |-> << [u |-> "imperial_fluidounce", pk |-> "metric", pe |-> 0, n |-> 1, d |-> 1] >>]
+  @@ "mpsi" :> [base |-> FALSE, def |-> << [u |-> "psi", pk |-> "metric", pe |-> 0, n |-> 1, d |-> 1] >>]
+  @@ "hectare" :> [base |-> FALSE, def |-> << [u |-> "are", pk |-> "metric", pe |-> 0, n |-> 1, d |-> 1] >>]
+  @@ "katal" :> [base |-> FALSE, def |-> << [u |-> "mole", pk |-> "metric", pe |-> 0, n |-> 1, d |-> 1], [u |-> "second", pk |-> "metric", pe |-> 0, n |-> -1, d |-> 1] >>]
+  @@ "BTU" :> [base |-> FALSE, def |-> << [u |-> "joule", pk |-> "metric", pe |-> 0, n |-> 1, d |-> 1] >>]
+  @@ "sievert" :> [base |-> FALSE, def |-> << [u |-> "joule", pk |-> "metric", pe |-> 0, n |-> 1, d |-> 1], [u |-> "gram", pk |-> "metric", pe |-> 3, n |-> -1, d |-> 1] >>]
+  @@ "percent" :> [base |-> FALSE, def |-> <<  >>]
+  @@ "darcy" :> [base |-> FALSE, def |-> << [u |-> "bar", pk |-> "metric", pe |-> 0, n |-> 1, d |-> 1], [u |-> "atmosphere", pk |-> "metric", pe |-> 0, n |-> -1, d |-> 1], [u |-> "metre", pk |-> "metric", pe |-> -6, n |-> 2, d |-> 1] >>]
+  @@ "troy_ounce" :> [base |-> FALSE, def |-> << [u |-> "grain", pk |-> "metric", pe |-> 0, n |-> 1, d |-> 1] >>]
+  @@ "gallon" :> [base |-> FALSE, def |-> << [u |-> "inch", pk |-> "metric", pe |-> 0, n |-> 3, d |-> 1] >>]
+  @@ "pint" :> [base |-> FALSE, def |-> << [u |-> "gallon", pk |-> "metric", pe |-> 0, n |-> 1, d |-> 1] >>]
+  @@ "hogshead" :> [base |-> FALSE, def |-> << [u |-> "gallon", pk |-> "metric", pe |-> 0, n |-> 1, d |-> 1] >>]
+  @@ "planck_energy" :> [base |-> FALSE, def |-> << [u |-> "joule", pk |-> "metric", pe |-> 0, n |-> 1, d |-> 2], [u |-> "hertz", pk |-> "metric", pe |-> 0, n |-> -1, d |-> 2], [u |-> "metre", pk |-> "metric", pe |-> 0, n |-> 5, d |-> 2], [u |-> "second", pk |-> "metric", pe |-> 0, n |-> -5, d |-> 2], [u |-> "metre", pk |-> "metric", pe |-> 0, n |-> -3, d |-> 2], [u |-> "gram", pk |-> "metric", pe |-> 3, n |-> 1, d |-> 2], [u |-> "second", pk |-> "metric", pe |-> 0, n |-> 1, d |-> 1] >>]
+  @@ "furlong" :> [base |-> FALSE, def |-> << [u |-> "yard", pk |-> "metric", pe |-> 0, n |-> 1, d |-> 1] >>]
+  @@ "swimmingpool" :> [base |-> FALSE, def |-> << [u |-> "metre", pk |-> "metric", pe |-> 0, n |-> 1, d |-> 1], [u |-> "metre", pk |-> "metric", pe |-> 0, n |-> 1, d |-> 1], [u |-> "metre", pk |-> "metric", pe |-> 0, n |-> 1, d |-> 1] >>]
+  @@ "imperial_fluidounce" :> [base |-> FALSE, def |-> << [u |-> "litre", pk |-> "metric", pe |-> -3, n |-> 1, d |-> 1] >>]
+  @@ "molar" :> [base |-> FALSE, def |-> << [u |-> "mole", pk |-> "metric", pe |-> 0, n |-> 1, d |-> 1], [u |-> "litre", pk |-> "metric", pe |-> 0, n |-> -1, d |-> 1] >>]
+  @@ "pound" :> [base |-> FALSE, def |-> << [u |-> "grain", pk |-> "metric", pe |-> 0, n |-> 1, d |-> 1] >>]
 
 Forms == << [text |-> "m", u |-> "metre", pk |-> "metric", pe |-> 0],
   [text |-> "metre", u |-> "metre", pk |-> "metric", pe |-> 0],
@@ -230,335 +230,66 @@ Forms == << [text |-> "m", u |-> "metre", pk |-> "metric", pe |-> 0],
   [text |-> "kLOC", u |-> "LOC", pk |-> "metric", pe |-> 3],
   [text |-> "mLOC", u |-> "LOC", pk |-> "metric", pe |-> -3],
   [text |-> "unix_s", u |-> "unix_s", pk |-> "metric", pe |-> 0],
-  [text |-> "V", u |-> "volt", pk |-> "metric", pe |-> 0],
-  [text |-> "volt", u |-> "volt", pk |-> "metric", pe |-> 0],
-  [text |-> "kV", u |-> "volt", pk |-> "metric", pe |-> 3],
-  [text |-> "mV", u |-> "volt", pk |-> "metric", pe |-> -3],
-  [text |-> "L", u |-> "litre", pk |-> "metric", pe |-> 0],
-  [text |-> "litre", u |-> "litre", pk |-> "metric", pe |-> 0],
-  [text |-> "kL", u |-> "litre", pk |-> "metric", pe |-> 3],
-  [text |-> "mL", u |-> "litre", pk |-> "metric", pe |-> -3],
-  [text |-> "H", u |-> "henry", pk |-> "metric", pe |-> 0],
-  [text |-> "henry", u |-> "henry", pk |-> "metric", pe |-> 0],
-  [text |-> "kH", u |-> "henry", pk |-> "metric", pe |-> 3],
-  [text |-> "mH", u |-> "henry", pk |-> "metric", pe |-> -3],
-  [text |-> "fathom", u |-> "fathom", pk |-> "metric", pe |-> 0],
-  [text |-> "au", u |-> "astronomicalunit", pk |-> "metric", pe |-> 0],
-  [text |-> "astronomicalunit", u |-> "astronomicalunit", pk |-> "metric", pe |-> 0],
-  [text |-> "T", u |-> "tesla", pk |-> "metric", pe |-> 0],
-  [text |-> "tesla", u |-> "tesla", pk |-> "metric", pe |-> 0],
-  [text |-> "kT", u |-> "tesla", pk |-> "metric", pe |-> 3],
-  [text |-> "mT", u |-> "tesla", pk |-> "metric", pe |-> -3],
-  [text |-> "′", u |-> "arcminute", pk |-> "metric", pe |-> 0],
-  [text |-> "arcminute", u |-> "arcminute", pk |-> "metric", pe |-> 0],
-  [text |-> "thermie", u |-> "thermie", pk |-> "metric", pe |-> 0],
-  [text |-> "swimmingpool", u |-> "swimmingpool", pk |-> "metric", pe |-> 0],
-  [text |-> "ozf", u |-> "ounce_force", pk |-> "metric", pe |-> 0],
-  [text |-> "ounce_force", u |-> "ounce_force", pk |-> "metric", pe |-> 0],
-  [text |-> "NM", u |-> "nautical_mile", pk |-> "metric", pe |-> 0],
-  [text |-> "nautical_mile", u |-> "nautical_mile", pk |-> "metric", pe |-> 0],
-  [text |-> "ha", u |-> "hectare", pk |-> "metric", pe |-> 0],
-  [text |-> "hectare", u |-> "hectare", pk |-> "metric", pe |-> 0],
-  [text |-> "yr", u |-> "year", pk |-> "metric", pe |-> 0],
-  [text |-> "year", u |-> "year", pk |-> "metric", pe |-> 0],
-  [text |-> "kyr", u |-> "year", pk |-> "metric", pe |-> 3],
-  [text |-> "myr", u |-> "year", pk |-> "metric", pe |-> -3],
-  [text |-> "dyne", u |-> "dyne", pk |-> "metric", pe |-> 0],
-  [text |-> "in", u |-> "inch", pk |-> "metric", pe |-> 0],
-  [text |-> "inch", u |-> "inch", pk |-> "metric", pe |-> 0],
-  [text |-> "micron", u |-> "micron", pk |-> "metric", pe |-> 0],
-  [text |-> "MPSI", u |-> "mpsi", pk |-> "metric", pe |-> 0],
-  [text |-> "mpsi", u |-> "mpsi", pk |-> "metric", pe |-> 0],
-  [text |-> "lm", u |-> "lumen", pk |-> "metric", pe |-> 0],
-  [text |-> "lumen", u |-> "lumen", pk |-> "metric", pe |-> 0],
-  [text |-> "klm", u |-> "lumen", pk |-> "metric", pe |-> 3],
-  [text |-> "mlm", u |-> "lumen", pk |-> "metric", pe |-> -3],
-  [text |-> "hogshead", u |-> "hogshead", pk |-> "metric", pe |-> 0],
-  [text |-> "hundred", u |-> "hundred", pk |-> "metric", pe |-> 0],
-  [text |-> "min", u |-> "minute", pk |-> "metric", pe |-> 0],
-  [text |-> "minute", u |-> "minute", pk |-> "metric", pe |-> 0],
-  [text |-> "dozen", u |-> "dozen", pk |-> "metric", pe |-> 0],
-  [text |-> "barn", u |-> "barn", pk |-> "metric", pe |-> 0],
-  [text |-> "kilobarn", u |-> "barn", pk |-> "metric", pe |-> 3],
-  [text |-> "millibarn", u |-> "barn", pk |-> "metric", pe |-> -3],
-  [text |-> "planck_time", u |-> "planck_time", pk |-> "metric", pe |-> 0],
-  [text |-> "quadrillion", u |-> "quadrillion", pk |-> "metric", pe |-> 0],
-  [text |-> "Oe", u |-> "oersted", pk |-> "metric", pe |-> 0],
-  [text |-> "oersted", u |-> "oersted", pk |-> "metric", pe |-> 0],
-  [text |-> "kOe", u |-> "oersted", pk |-> "metric", pe |-> 3],
-  [text |-> "mOe", u |-> "oersted", pk |-> "metric", pe |-> -3],
-  [text |-> "barrel", u |-> "barrel", pk |-> "metric", pe |-> 0],
-  [text |-> "million", u |-> "million", pk |-> "metric", pe |-> 0],
-  [text |-> "N", u |-> "newton", pk |-> "metric", pe |-> 0],
-  [text |-> "newton", u |-> "newton", pk |-> "metric", pe |-> 0],
-  [text |-> "kN", u |-> "newton", pk |-> "metric", pe |-> 3],
-  [text |-> "mN", u |-> "newton", pk |-> "metric", pe |-> -3],
-  [text |-> "yd", u |-> "yard", pk |-> "metric", pe |-> 0],
-  [text |-> "yard", u |-> "yard", pk |-> "metric", pe |-> 0],
-  [text |-> "‰", u |-> "permille", pk |-> "metric", pe |-> 0],
-  [text |-> "permille", u |-> "permille", pk |-> "metric", pe |-> 0],
-  [text |-> "therm", u |-> "therm", pk |-> "metric", pe |-> 0],
-  [text |-> "J", u |-> "joule", pk |-> "metric", pe |-> 0],
-  [text |-> "joule", u |-> "joule", pk |-> "metric", pe |-> 0],
-  [text |-> "kJ", u |-> "joule", pk |-> "metric", pe |-> 3],
-  [text |-> "mJ", u |-> "joule", pk |-> "metric", pe |-> -3],
-  [text |-> "nt", u |-> "nit", pk |-> "metric", pe |-> 0],
-  [text |-> "nit", u |-> "nit", pk |-> "metric", pe |-> 0],
-  [text |-> "knt", u |-> "nit", pk |-> "metric", pe |-> 3],
-  [text |-> "mnt", u |-> "nit", pk |-> "metric", pe |-> -3],
-  [text |-> "PSI", u |-> "psi", pk |-> "metric", pe |-> 0],
-  [text |-> "psi", u |-> "psi", pk |-> "metric", pe |-> 0],
-  [text |-> "RU", u |-> "rackunit", pk |-> "metric", pe |-> 0],
-  [text |-> "rackunit", u |-> "rackunit", pk |-> "metric", pe |-> 0],
-  [text |-> "gradian", u |-> "gradian", pk |-> "metric", pe |-> 0],
-  [text |-> "mil", u |-> "thou", pk |-> "metric", pe |-> 0],
-  [text |-> "thou", u |-> "thou", pk |-> "metric", pe |-> 0],
-  [text |-> "ozt", u |-> "troy_ounce", pk |-> "metric", pe |-> 0],
-  [text |-> "troy_ounce", u |-> "troy_ounce", pk |-> "metric", pe |-> 0],
-  [text |-> "UK_pt", u |-> "imperial_pint", pk |-> "metric", pe |-> 0],
-  [text |-> "imperial_pint", u |-> "imperial_pint", pk |-> "metric", pe |-> 0],
-  [text |-> "cup", u |-> "cup", pk |-> "metric", pe |-> 0],
-  [text |-> "Ω", u |-> "ohm", pk |-> "metric", pe |-> 0],
-  [text |-> "ohm", u |-> "ohm", pk |-> "metric", pe |-> 0],
-  [text |-> "kΩ", u |-> "ohm", pk |-> "metric", pe |-> 3],
-  [text |-> "mΩ", u |-> "ohm", pk |-> "metric", pe |-> -3],
-  [text |-> "partspertrillion", u |-> "partspertrillion", pk |-> "metric", pe |-> 0],
-  [text |-> "%", u |-> "percent", pk |-> "metric", pe |-> 0],
-  [text |-> "percent", u |-> "percent", pk |-> "metric", pe |-> 0],
-  [text |-> "planck_length", u |-> "planck_length", pk |-> "metric", pe |-> 0],
-  [text |-> "metric_tsp", u |-> "metric_teaspoon", pk |-> "metric", pe |-> 0],
-  [text |-> "metric_teaspoon", u |-> "metric_teaspoon", pk |-> "metric", pe |-> 0],
-  [text |-> "grain", u |-> "grain", pk |-> "metric", pe |-> 0],
-  [text |-> "fc", u |-> "footcandle", pk |-> "metric", pe |-> 0],
-  [text |-> "footcandle", u |-> "footcandle", pk |-> "metric", pe |-> 0],
-  [text |-> "trillion", u |-> "trillion", pk |-> "metric", pe |-> 0],
-  [text |-> "poise", u |-> "poise", pk |-> "metric", pe |-> 0],
-  [text |-> "kilopoise", u |-> "poise", pk |-> "metric", pe |-> 3],
-  [text |-> "millipoise", u |-> "poise", pk |-> "metric", pe |-> -3],
-  [text |-> "°", u |-> "degree", pk |-> "metric", pe |-> 0],
-  [text |-> "degree", u |-> "degree", pk |-> "metric", pe |-> 0],
-  [text |-> "UK_bu", u |-> "imperial_bushel", pk |-> "metric", pe |-> 0],
-  [text |-> "imperial_bushel", u |-> "imperial_bushel", pk |-> "metric", pe |-> 0],
-  [text |-> "quintillion", u |-> "quintillion", pk |-> "metric", pe |-> 0],
-  [text |-> "Pa", u |-> "pascal", pk |-> "metric", pe |-> 0],
-  [text |-> "pascal", u |-> "pascal", pk |-> "metric", pe |-> 0],
-  [text |-> "kPa", u |-> "pascal", pk |-> "metric", pe |-> 3],
-  [text |-> "mPa", u |-> "pascal", pk |-> "metric", pe |-> -3],
-  [text |-> "ft", u |-> "foot", pk |-> "metric", pe |-> 0],
-  [text |-> "foot", u |-> "foot", pk |-> "metric", pe |-> 0],
-  [text |-> "week", u |-> "week", pk |-> "metric", pe |-> 0],
-  [text |-> "UK_fldr", u |-> "imperial_fluid_drachm", pk |-> "metric", pe |-> 0],
-  [text |-> "imperial_fluid_drachm", u |-> "imperial_fluid_drachm", pk |-> "metric", pe |-> 0],
-  [text |-> "kat", u |-> "katal", pk |-> "metric", pe |-> 0],
-  [text |-> "katal", u |-> "katal", pk |-> "metric", pe |-> 0],
-  [text |-> "kkat", u |-> "katal", pk |-> "metric", pe |-> 3],
-  [text |-> "mkat", u |-> "katal", pk |-> "metric", pe |-> -3],
-  [text |-> "BTU", u |-> "BTU", pk |-> "metric", pe |-> 0],
-  [text |-> "dwt", u |-> "pennyweight", pk |-> "metric", pe |-> 0],
-  [text |-> "pennyweight", u |-> "pennyweight", pk |-> "metric", pe |-> 0],
-  [text |-> "firkin", u |-> "firkin", pk |-> "metric", pe |-> 0],
-  [text |-> "kilofirkin", u |-> "firkin", pk |-> "metric", pe |-> 3],
-  [text |-> "millifirkin", u |-> "firkin", pk |-> "metric", pe |-> -3],
-  [text |-> "partspermillion", u |-> "partspermillion", pk |-> "metric", pe |-> 0],
   [text |-> "decade", u |-> "decade", pk |-> "metric", pe |-> 0],
-  [text |-> "planck_temperature", u |-> "planck_temperature", pk |-> "metric", pe |-> 0],
-  [text |-> "long_ton", u |-> "long_ton", pk |-> "metric", pe |-> 0],
-  [text |-> "Da", u |-> "dalton", pk |-> "metric", pe |-> 0],
-  [text |-> "dalton", u |-> "dalton", pk |-> "metric", pe |-> 0],
-  [text |-> "F", u |-> "farad", pk |-> "metric", pe |-> 0],
-  [text |-> "farad", u |-> "farad", pk |-> "metric", pe |-> 0],
-  [text |-> "kF", u |-> "farad", pk |-> "metric", pe |-> 3],
-  [text |-> "mF", u |-> "farad", pk |-> "metric", pe |-> -3],
-  [text |-> "Wb", u |-> "weber", pk |-> "metric", pe |-> 0],
-  [text |-> "weber", u |-> "weber", pk |-> "metric", pe |-> 0],
-  [text |-> "kWb", u |-> "weber", pk |-> "metric", pe |-> 3],
-  [text |-> "mWb", u |-> "weber", pk |-> "metric", pe |-> -3],
-  [text |-> "BPM", u |-> "bpm", pk |-> "metric", pe |-> 0],
-  [text |-> "bpm", u |-> "bpm", pk |-> "metric", pe |-> 0],
-  [text |-> "unix_ms", u |-> "unix_ms", pk |-> "metric", pe |-> 0],
+  [text |-> "Hz", u |-> "hertz", pk |-> "metric", pe |-> 0],
+  [text |-> "hertz", u |-> "hertz", pk |-> "metric", pe |-> 0],
+  [text |-> "kHz", u |-> "hertz", pk |-> "metric", pe |-> 3],
+  [text |-> "mHz", u |-> "hertz", pk |-> "metric", pe |-> -3],
   [text |-> "maxwell", u |-> "maxwell", pk |-> "metric", pe |-> 0],
-  [text |-> "mmHg", u |-> "mmHg", pk |-> "metric", pe |-> 0],
+  [text |-> "planck_temperature", u |-> "planck_temperature", pk |-> "metric", pe |-> 0],
+  [text |-> "S", u |-> "siemens", pk |-> "metric", pe |-> 0],
+  [text |-> "siemens", u |-> "siemens", pk |-> "metric", pe |-> 0],
+  [text |-> "kS", u |-> "siemens", pk |-> "metric", pe |-> 3],
+  [text |-> "mS", u |-> "siemens", pk |-> "metric", pe |-> -3],
+  [text |-> "fermi", u |-> "fermi", pk |-> "metric", pe |-> 0],
   [text |-> "B", u |-> "byte", pk |-> "metric", pe |-> 0],
   [text |-> "byte", u |-> "byte", pk |-> "metric", pe |-> 0],
   [text |-> "kbyte", u |-> "byte", pk |-> "metric", pe |-> 3],
   [text |-> "mbyte", u |-> "byte", pk |-> "metric", pe |-> -3],
   [text |-> "Kibyte", u |-> "byte", pk |-> "binary", pe |-> 10],
   [text |-> "kibibyte", u |-> "byte", pk |-> "binary", pe |-> 10],
-  [text |-> "stone", u |-> "stone", pk |-> "metric", pe |-> 0],
-  [text |-> "ton", u |-> "tonne", pk |-> "metric", pe |-> 0],
-  [text |-> "tonne", u |-> "tonne", pk |-> "metric", pe |-> 0],
-  [text |-> "kton", u |-> "tonne", pk |-> "metric", pe |-> 3],
-  [text |-> "mton", u |-> "tonne", pk |-> "metric", pe |-> -3],
-  [text |-> "inHg", u |-> "inHg", pk |-> "metric", pe |-> 0],
-  [text |-> "century", u |-> "century", pk |-> "metric", pe |-> 0],
   [text |-> "Bq", u |-> "becquerel", pk |-> "metric", pe |-> 0],
   [text |-> "becquerel", u |-> "becquerel", pk |-> "metric", pe |-> 0],
   [text |-> "kBq", u |-> "becquerel", pk |-> "metric", pe |-> 3],
   [text |-> "mBq", u |-> "becquerel", pk |-> "metric", pe |-> -3],
-  [text |-> "St", u |-> "stokes", pk |-> "metric", pe |-> 0],
-  [text |-> "stokes", u |-> "stokes", pk |-> "metric", pe |-> 0],
-  [text |-> "kSt", u |-> "stokes", pk |-> "metric", pe |-> 3],
-  [text |-> "mSt", u |-> "stokes", pk |-> "metric", pe |-> -3],
-  [text |-> "mi", u |-> "mile", pk |-> "metric", pe |-> 0],
-  [text |-> "mile", u |-> "mile", pk |-> "metric", pe |-> 0],
-  [text |-> "kn", u |-> "knot", pk |-> "metric", pe |-> 0],
-  [text |-> "knot", u |-> "knot", pk |-> "metric", pe |-> 0],
-  [text |-> "dpi", u |-> "dpi", pk |-> "metric", pe |-> 0],
-  [text |-> "C", u |-> "coulomb", pk |-> "metric", pe |-> 0],
-  [text |-> "coulomb", u |-> "coulomb", pk |-> "metric", pe |-> 0],
-  [text |-> "kC", u |-> "coulomb", pk |-> "metric", pe |-> 3],
-  [text |-> "mC", u |-> "coulomb", pk |-> "metric", pe |-> -3],
-  [text |-> "pint", u |-> "pint", pk |-> "metric", pe |-> 0],
-  [text |-> "molar", u |-> "molar", pk |-> "metric", pe |-> 0],
-  [text |-> "kilomolar", u |-> "molar", pk |-> "metric", pe |-> 3],
-  [text |-> "millimolar", u |-> "molar", pk |-> "metric", pe |-> -3],
-  [text |-> "bps", u |-> "bps", pk |-> "metric", pe |-> 0],
-  [text |-> "kbps", u |-> "bps", pk |-> "metric", pe |-> 3],
-  [text |-> "mbps", u |-> "bps", pk |-> "metric", pe |-> -3],
-  [text |-> "rod", u |-> "rod", pk |-> "metric", pe |-> 0],
-  [text |-> "are", u |-> "are", pk |-> "metric", pe |-> 0],
-  [text |-> "millennium", u |-> "millennium", pk |-> "metric", pe |-> 0],
-  [text |-> "Sv", u |-> "sievert", pk |-> "metric", pe |-> 0],
-  [text |-> "sievert", u |-> "sievert", pk |-> "metric", pe |-> 0],
-  [text |-> "kSv", u |-> "sievert", pk |-> "metric", pe |-> 3],
-  [text |-> "mSv", u |-> "sievert", pk |-> "metric", pe |-> -3],
-  [text |-> "UK_tbsp", u |-> "imperial_tablespoon", pk |-> "metric", pe |-> 0],
-  [text |-> "imperial_tablespoon", u |-> "imperial_tablespoon", pk |-> "metric", pe |-> 0],
-  [text |-> "atm", u |-> "atmosphere", pk |-> "metric", pe |-> 0],
-  [text |-> "atmosphere", u |-> "atmosphere", pk |-> "metric", pe |-> 0],
-  [text |-> "tbsp", u |-> "tablespoon", pk |-> "metric", pe |-> 0],
-  [text |-> "tablespoon", u |-> "tablespoon", pk |-> "metric", pe |-> 0],
-  [text |-> "RPM", u |-> "rpm", pk |-> "metric", pe |-> 0],
-  [text |-> "rpm", u |-> "rpm", pk |-> "metric", pe |-> 0],
-  [text |-> "Ah", u |-> "amperehour", pk |-> "metric", pe |-> 0],
-  [text |-> "amperehour", u |-> "amperehour", pk |-> "metric", pe |-> 0],
-  [text |-> "kAh", u |-> "amperehour", pk |-> "metric", pe |-> 3],
-  [text |-> "mAh", u |-> "amperehour", pk |-> "metric", pe |-> -3],
-  [text |-> "Hg", u |-> "Hg", pk |-> "metric", pe |-> 0],
-  [text |-> "gregorian_year", u |-> "gregorian_year", pk |-> "metric", pe |-> 0],
-  [text |-> "Å", u |-> "angstrom", pk |-> "metric", pe |-> 0],
-  [text |-> "angstrom", u |-> "angstrom", pk |-> "metric", pe |-> 0],
-  [text |-> "league", u |-> "league", pk |-> "metric", pe |-> 0],
-  [text |-> "eV", u |-> "electronvolt", pk |-> "metric", pe |-> 0],
-  [text |-> "electronvolt", u |-> "electronvolt", pk |-> "metric", pe |-> 0],
-  [text |-> "keV", u |-> "electronvolt", pk |-> "metric", pe |-> 3],
-  [text |-> "meV", u |-> "electronvolt", pk |-> "metric", pe |-> -3],
-  [text |-> "billion", u |-> "billion", pk |-> "metric", pe |-> 0],
-  [text |-> "W", u |-> "watt", pk |-> "metric", pe |-> 0],
-  [text |-> "watt", u |-> "watt", pk |-> "metric", pe |-> 0],
-  [text |-> "kW", u |-> "watt", pk |-> "metric", pe |-> 3],
-  [text |-> "mW", u |-> "watt", pk |-> "metric", pe |-> -3],
-  [text |-> "Ry", u |-> "Ry", pk |-> "metric", pe |-> 0],
-  [text |-> "Hz", u |-> "hertz", pk |-> "metric", pe |-> 0],
-  [text |-> "hertz", u |-> "hertz", pk |-> "metric", pe |-> 0],
-  [text |-> "kHz", u |-> "hertz", pk |-> "metric", pe |-> 3],
-  [text |-> "mHz", u |-> "hertz", pk |-> "metric", pe |-> -3],
-  [text |-> "day", u |-> "day", pk |-> "metric", pe |-> 0],
   [text |-> "kph", u |-> "kph", pk |-> "metric", pe |-> 0],
-  [text |-> "sr", u |-> "steradian", pk |-> "metric", pe |-> 0],
-  [text |-> "steradian", u |-> "steradian", pk |-> "metric", pe |-> 0],
-  [text |-> "ksr", u |-> "steradian", pk |-> "metric", pe |-> 3],
-  [text |-> "msr", u |-> "steradian", pk |-> "metric", pe |-> -3],
-  [text |-> "pc", u |-> "parsec", pk |-> "metric", pe |-> 0],
-  [text |-> "parsec", u |-> "parsec", pk |-> "metric", pe |-> 0],
-  [text |-> "kpc", u |-> "parsec", pk |-> "metric", pe |-> 3],
-  [text |-> "mpc", u |-> "parsec", pk |-> "metric", pe |-> -3],
-  [text |-> "erg", u |-> "erg", pk |-> "metric", pe |-> 0],
-  [text |-> "sidereal_day", u |-> "sidereal_day", pk |-> "metric", pe |-> 0],
-  [text |-> "thousand", u |-> "thousand", pk |-> "metric", pe |-> 0],
-  [text |-> "oz", u |-> "ounce", pk |-> "metric", pe |-> 0],
-  [text |-> "ounce", u |-> "ounce", pk |-> "metric", pe |-> 0],
-  [text |-> "″", u |-> "arcsecond", pk |-> "metric", pe |-> 0],
-  [text |-> "arcsecond", u |-> "arcsecond", pk |-> "metric", pe |-> 0],
-  [text |-> "kiloarcsecond", u |-> "arcsecond", pk |-> "metric", pe |-> 3],
-  [text |-> "milliarcsecond", u |-> "arcsecond", pk |-> "metric", pe |-> -3],
-  [text |-> "UK_floz", u |-> "imperial_fluidounce", pk |-> "metric", pe |-> 0],
-  [text |-> "imperial_fluidounce", u |-> "imperial_fluidounce", pk |-> "metric", pe |-> 0],
-  [text |-> "KSI", u |-> "ksi", pk |-> "metric", pe |-> 0],
-  [text |-> "ksi", u |-> "ksi", pk |-> "metric", pe |-> 0],
-  [text |-> "UK_gi", u |-> "imperial_gill", pk |-> "metric", pe |-> 0],
-  [text |-> "imperial_gill", u |-> "imperial_gill", pk |-> "metric", pe |-> 0],
-  [text |-> "smoot", u |-> "smoot", pk |-> "metric", pe |-> 0],
-  [text |-> "cc", u |-> "cc", pk |-> "metric", pe |-> 0],
+  [text |-> "ppi", u |-> "ppi", pk |-> "metric", pe |-> 0],
   [text |-> "lbf", u |-> "pound_force", pk |-> "metric", pe |-> 0],
   [text |-> "pound_force", u |-> "pound_force", pk |-> "metric", pe |-> 0],
-  [text |-> "ppi", u |-> "ppi", pk |-> "metric", pe |-> 0],
-  [text |-> "bar", u |-> "bar", pk |-> "metric", pe |-> 0],
-  [text |-> "kbar", u |-> "bar", pk |-> "metric", pe |-> 3],
-  [text |-> "mbar", u |-> "bar", pk |-> "metric", pe |-> -3],
+  [text |-> "Ry", u |-> "Ry", pk |-> "metric", pe |-> 0],
   [text |-> "molal", u |-> "molal", pk |-> "metric", pe |-> 0],
   [text |-> "kilomolal", u |-> "molal", pk |-> "metric", pe |-> 3],
   [text |-> "millimolal", u |-> "molal", pk |-> "metric", pe |-> -3],
-  [text |-> "lb", u |-> "pound", pk |-> "metric", pe |-> 0],
-  [text |-> "pound", u |-> "pound", pk |-> "metric", pe |-> 0],
-  [text |-> "partsperbillion", u |-> "partsperbillion", pk |-> "metric", pe |-> 0],
-  [text |-> "planck_mass", u |-> "planck_mass", pk |-> "metric", pe |-> 0],
-  [text |-> "month", u |-> "month", pk |-> "metric", pe |-> 0],
+  [text |-> "kgf", u |-> "kilogram_force", pk |-> "metric", pe |-> 0],
+  [text |-> "kilogram_force", u |-> "kilogram_force", pk |-> "metric", pe |-> 0],
   [text |-> "lx", u |-> "lux", pk |-> "metric", pe |-> 0],
   [text |-> "lux", u |-> "lux", pk |-> "metric", pe |-> 0],
   [text |-> "klx", u |-> "lux", pk |-> "metric", pe |-> 3],
   [text |-> "mlx", u |-> "lux", pk |-> "metric", pe |-> -3],
-  [text |-> "torr", u |-> "torr", pk |-> "metric", pe |-> 0],
-  [text |-> "furlong", u |-> "furlong", pk |-> "metric", pe |-> 0],
-  [text |-> "kilofurlong", u |-> "furlong", pk |-> "metric", pe |-> 3],
-  [text |-> "millifurlong", u |-> "furlong", pk |-> "metric", pe |-> -3],
-  [text |-> "kgf", u |-> "kilogram_force", pk |-> "metric", pe |-> 0],
-  [text |-> "kilogram_force", u |-> "kilogram_force", pk |-> "metric", pe |-> 0],
-  [text |-> "rad", u |-> "radian", pk |-> "metric", pe |-> 0],
-  [text |-> "radian", u |-> "radian", pk |-> "metric", pe |-> 0],
-  [text |-> "krad", u |-> "radian", pk |-> "metric", pe |-> 3],
-  [text |-> "mrad", u |-> "radian", pk |-> "metric", pe |-> -3],
-  [text |-> "gauss", u |-> "gauss", pk |-> "metric", pe |-> 0],
-  [text |-> "hp", u |-> "horsepower", pk |-> "metric", pe |-> 0],
-  [text |-> "horsepower", u |-> "horsepower", pk |-> "metric", pe |-> 0],
-  [text |-> "long_hundredweight", u |-> "long_hundredweight", pk |-> "metric", pe |-> 0],
-  [text |-> "gal", u |-> "gallon", pk |-> "metric", pe |-> 0],
-  [text |-> "gallon", u |-> "gallon", pk |-> "metric", pe |-> 0],
-  [text |-> "UK_qt", u |-> "imperial_quart", pk |-> "metric", pe |-> 0],
-  [text |-> "imperial_quart", u |-> "imperial_quart", pk |-> "metric", pe |-> 0],
-  [text |-> "ly", u |-> "lightyear", pk |-> "metric", pe |-> 0],
-  [text |-> "lightyear", u |-> "lightyear", pk |-> "metric", pe |-> 0],
-  [text |-> "kly", u |-> "lightyear", pk |-> "metric", pe |-> 3],
-  [text |-> "mly", u |-> "lightyear", pk |-> "metric", pe |-> -3],
-  [text |-> "darcy", u |-> "darcy", pk |-> "metric", pe |-> 0],
-  [text |-> "kilodarcy", u |-> "darcy", pk |-> "metric", pe |-> 3],
-  [text |-> "millidarcy", u |-> "darcy", pk |-> "metric", pe |-> -3],
-  [text |-> "UK_gal", u |-> "imperial_gallon", pk |-> "metric", pe |-> 0],
-  [text |-> "imperial_gallon", u |-> "imperial_gallon", pk |-> "metric", pe |-> 0],
-  [text |-> "tsp", u |-> "teaspoon", pk |-> "metric", pe |-> 0],
-  [text |-> "teaspoon", u |-> "teaspoon", pk |-> "metric", pe |-> 0],
-  [text |-> "rev", u |-> "revolution", pk |-> "metric", pe |-> 0],
-  [text |-> "revolution", u |-> "revolution", pk |-> "metric", pe |-> 0],
-  [text |-> "planck_energy", u |-> "planck_energy", pk |-> "metric", pe |-> 0],
-  [text |-> "unix_µs", u |-> "unix_µs", pk |-> "metric", pe |-> 0],
-  [text |-> "Gy", u |-> "gray", pk |-> "metric", pe |-> 0],
-  [text |-> "gray", u |-> "gray", pk |-> "metric", pe |-> 0],
-  [text |-> "kGy", u |-> "gray", pk |-> "metric", pe |-> 3],
-  [text |-> "mGy", u |-> "gray", pk |-> "metric", pe |-> -3],
-  [text |-> "h", u |-> "hour", pk |-> "metric", pe |-> 0],
-  [text |-> "hour", u |-> "hour", pk |-> "metric", pe |-> 0],
-  [text |-> "cal", u |-> "calorie", pk |-> "metric", pe |-> 0],
-  [text |-> "calorie", u |-> "calorie", pk |-> "metric", pe |-> 0],
-  [text |-> "kcal", u |-> "calorie", pk |-> "metric", pe |-> 3],
-  [text |-> "mcal", u |-> "calorie", pk |-> "metric", pe |-> -3],
-  [text |-> "mph", u |-> "mph", pk |-> "metric", pe |-> 0],
-  [text |-> "floz", u |-> "fluidounce", pk |-> "metric", pe |-> 0],
-  [text |-> "fluidounce", u |-> "fluidounce", pk |-> "metric", pe |-> 0],
-  [text |-> "acre", u |-> "acre", pk |-> "metric", pe |-> 0],
-  [text |-> "S", u |-> "siemens", pk |-> "metric", pe |-> 0],
-  [text |-> "siemens", u |-> "siemens", pk |-> "metric", pe |-> 0],
-  [text |-> "kS", u |-> "siemens", pk |-> "metric", pe |-> 3],
-  [text |-> "mS", u |-> "siemens", pk |-> "metric", pe |-> -3],
-  [text |-> "UK_tsp", u |-> "imperial_teaspoon", pk |-> "metric", pe |-> 0],
-  [text |-> "imperial_teaspoon", u |-> "imperial_teaspoon", pk |-> "metric", pe |-> 0],
-  [text |-> "metric_tbsp", u |-> "metric_tablespoon", pk |-> "metric", pe |-> 0],
-  [text |-> "metric_tablespoon", u |-> "metric_tablespoon", pk |-> "metric", pe |-> 0],
-  [text |-> "fps", u |-> "fps", pk |-> "metric", pe |-> 0],
-  [text |-> "turn", u |-> "turn", pk |-> "metric", pe |-> 0],
-  [text |-> "fermi", u |-> "fermi", pk |-> "metric", pe |-> 0],
-  [text |-> "julian_year", u |-> "julian_year", pk |-> "metric", pe |-> 0],
+  [text |-> "therm", u |-> "therm", pk |-> "metric", pe |-> 0],
+  [text |-> "firkin", u |-> "firkin", pk |-> "metric", pe |-> 0],
+  [text |-> "kilofirkin", u |-> "firkin", pk |-> "metric", pe |-> 3],
+  [text |-> "millifirkin", u |-> "firkin", pk |-> "metric", pe |-> -3],
+  [text |-> "au", u |-> "astronomicalunit", pk |-> "metric", pe |-> 0],
+  [text |-> "astronomicalunit", u |-> "astronomicalunit", pk |-> "metric", pe |-> 0],
+  [text |-> "trillion", u |-> "trillion", pk |-> "metric", pe |-> 0],
   [text |-> "footballfield", u |-> "footballfield", pk |-> "metric", pe |-> 0],
-  [text |-> "partsperquadrillion", u |-> "partsperquadrillion", pk |-> "metric", pe |-> 0],
+  [text |-> "yr", u |-> "year", pk |-> "metric", pe |-> 0],
+  [text |-> "year", u |-> "year", pk |-> "metric", pe |-> 0],
+  [text |-> "kyr", u |-> "year", pk |-> "metric", pe |-> 3],
+  [text |-> "myr", u |-> "year", pk |-> "metric", pe |-> -3],
+  [text |-> "Hg", u |-> "Hg", pk |-> "metric", pe |-> 0],
+  [text |-> "tbsp", u |-> "tablespoon", pk |-> "metric", pe |-> 0],
+  [text |-> "tablespoon", u |-> "tablespoon", pk |-> "metric", pe |-> 0],
+  [text |-> "gregorian_year", u |-> "gregorian_year", pk |-> "metric", pe |-> 0],
+  [text |-> "L", u |-> "litre", pk |-> "metric", pe |-> 0],
+  [text |-> "litre", u |-> "litre", pk |-> "metric", pe |-> 0],
+  [text |-> "kL", u |-> "litre", pk |-> "metric", pe |-> 3],
+  [text |-> "mL", u |-> "litre", pk |-> "metric", pe |-> -3],
+  [text |-> "rod", u |-> "rod", pk |-> "metric", pe |-> 0],
+  [text |-> "UK_fldr", u |-> "imperial_fluid_drachm", pk |-> "metric", pe |-> 0],
+  [text |-> "imperial_fluid_drachm", u |-> "imperial_fluid_drachm", pk |-> "metric", pe |-> 0],
+  [text |-> "unix_µs", u |-> "unix_µs", pk |-> "metric", pe |-> 0],
   [text |-> "fortnight", u |-> "fortnight", pk |-> "metric", pe |-> 0],
   [text |-> "kilofortnight", u |-> "fortnight", pk |-> "metric", pe |-> 3],
   [text |-> "millifortnight", u |-> "fortnight", pk |-> "metric", pe |-> -3],
@@ -566,11 +297,280 @@ Forms == << [text |-> "m", u |-> "metre", pk |-> "metric", pe |-> 0],
   [text |-> "watthour", u |-> "watthour", pk |-> "metric", pe |-> 0],
   [text |-> "kWh", u |-> "watthour", pk |-> "metric", pe |-> 3],
   [text |-> "mWh", u |-> "watthour", pk |-> "metric", pe |-> -3],
+  [text |-> "ft", u |-> "foot", pk |-> "metric", pe |-> 0],
+  [text |-> "foot", u |-> "foot", pk |-> "metric", pe |-> 0],
+  [text |-> "rev", u |-> "revolution", pk |-> "metric", pe |-> 0],
+  [text |-> "revolution", u |-> "revolution", pk |-> "metric", pe |-> 0],
+  [text |-> "bar", u |-> "bar", pk |-> "metric", pe |-> 0],
+  [text |-> "kbar", u |-> "bar", pk |-> "metric", pe |-> 3],
+  [text |-> "mbar", u |-> "bar", pk |-> "metric", pe |-> -3],
+  [text |-> "lm", u |-> "lumen", pk |-> "metric", pe |-> 0],
+  [text |-> "lumen", u |-> "lumen", pk |-> "metric", pe |-> 0],
+  [text |-> "klm", u |-> "lumen", pk |-> "metric", pe |-> 3],
+  [text |-> "mlm", u |-> "lumen", pk |-> "metric", pe |-> -3],
+  [text |-> "nt", u |-> "nit", pk |-> "metric", pe |-> 0],
+  [text |-> "nit", u |-> "nit", pk |-> "metric", pe |-> 0],
+  [text |-> "knt", u |-> "nit", pk |-> "metric", pe |-> 3],
+  [text |-> "mnt", u |-> "nit", pk |-> "metric", pe |-> -3],
+  [text |-> "long_hundredweight", u |-> "long_hundredweight", pk |-> "metric", pe |-> 0],
+  [text |-> "thousand", u |-> "thousand", pk |-> "metric", pe |-> 0],
+  [text |-> "partspermillion", u |-> "partspermillion", pk |-> "metric", pe |-> 0],
+  [text |-> "T", u |-> "tesla", pk |-> "metric", pe |-> 0],
+  [text |-> "tesla", u |-> "tesla", pk |-> "metric", pe |-> 0],
+  [text |-> "kT", u |-> "tesla", pk |-> "metric", pe |-> 3],
+  [text |-> "mT", u |-> "tesla", pk |-> "metric", pe |-> -3],
+  [text |-> "UK_bu", u |-> "imperial_bushel", pk |-> "metric", pe |-> 0],
+  [text |-> "imperial_bushel", u |-> "imperial_bushel", pk |-> "metric", pe |-> 0],
+  [text |-> "UK_tbsp", u |-> "imperial_tablespoon", pk |-> "metric", pe |-> 0],
+  [text |-> "imperial_tablespoon", u |-> "imperial_tablespoon", pk |-> "metric", pe |-> 0],
+  [text |-> "floz", u |-> "fluidounce", pk |-> "metric", pe |-> 0],
+  [text |-> "fluidounce", u |-> "fluidounce", pk |-> "metric", pe |-> 0],
+  [text |-> "planck_length", u |-> "planck_length", pk |-> "metric", pe |-> 0],
+  [text |-> "mil", u |-> "thou", pk |-> "metric", pe |-> 0],
+  [text |-> "thou", u |-> "thou", pk |-> "metric", pe |-> 0],
+  [text |-> "partspertrillion", u |-> "partspertrillion", pk |-> "metric", pe |-> 0],
+  [text |-> "month", u |-> "month", pk |-> "metric", pe |-> 0],
+  [text |-> "UK_gal", u |-> "imperial_gallon", pk |-> "metric", pe |-> 0],
+  [text |-> "imperial_gallon", u |-> "imperial_gallon", pk |-> "metric", pe |-> 0],
+  [text |-> "F", u |-> "farad", pk |-> "metric", pe |-> 0],
+  [text |-> "farad", u |-> "farad", pk |-> "metric", pe |-> 0],
+  [text |-> "kF", u |-> "farad", pk |-> "metric", pe |-> 3],
+  [text |-> "mF", u |-> "farad", pk |-> "metric", pe |-> -3],
+  [text |-> "hp", u |-> "horsepower", pk |-> "metric", pe |-> 0],
+  [text |-> "horsepower", u |-> "horsepower", pk |-> "metric", pe |-> 0],
+  [text |-> "Å", u |-> "angstrom", pk |-> "metric", pe |-> 0],
+  [text |-> "angstrom", u |-> "angstrom", pk |-> "metric", pe |-> 0],
   [text |-> "KB", u |-> "KB", pk |-> "metric", pe |-> 0],
-  [text |-> "mpg", u |-> "mpg", pk |-> "metric", pe |-> 0] >>
-Partners == {1, 5, 11, 108, 354, 83, 142, 154, 3}
+  [text |-> "hundred", u |-> "hundred", pk |-> "metric", pe |-> 0],
+  [text |-> "partsperquadrillion", u |-> "partsperquadrillion", pk |-> "metric", pe |-> 0],
+  [text |-> "′", u |-> "arcminute", pk |-> "metric", pe |-> 0],
+  [text |-> "arcminute", u |-> "arcminute", pk |-> "metric", pe |-> 0],
+  [text |-> "turn", u |-> "turn", pk |-> "metric", pe |-> 0],
+  [text |-> "mi", u |-> "mile", pk |-> "metric", pe |-> 0],
+  [text |-> "mile", u |-> "mile", pk |-> "metric", pe |-> 0],
+  [text |-> "fathom", u |-> "fathom", pk |-> "metric", pe |-> 0],
+  [text |-> "erg", u |-> "erg", pk |-> "metric", pe |-> 0],
+  [text |-> "UK_tsp", u |-> "imperial_teaspoon", pk |-> "metric", pe |-> 0],
+  [text |-> "imperial_teaspoon", u |-> "imperial_teaspoon", pk |-> "metric", pe |-> 0],
+  [text |-> "C", u |-> "coulomb", pk |-> "metric", pe |-> 0],
+  [text |-> "coulomb", u |-> "coulomb", pk |-> "metric", pe |-> 0],
+  [text |-> "kC", u |-> "coulomb", pk |-> "metric", pe |-> 3],
+  [text |-> "mC", u |-> "coulomb", pk |-> "metric", pe |-> -3],
+  [text |-> "micron", u |-> "micron", pk |-> "metric", pe |-> 0],
+  [text |-> "cup", u |-> "cup", pk |-> "metric", pe |-> 0],
+  [text |-> "week", u |-> "week", pk |-> "metric", pe |-> 0],
+  [text |-> "Oe", u |-> "oersted", pk |-> "metric", pe |-> 0],
+  [text |-> "oersted", u |-> "oersted", pk |-> "metric", pe |-> 0],
+  [text |-> "kOe", u |-> "oersted", pk |-> "metric", pe |-> 3],
+  [text |-> "mOe", u |-> "oersted", pk |-> "metric", pe |-> -3],
+  [text |-> "dpi", u |-> "dpi", pk |-> "metric", pe |-> 0],
+  [text |-> "kn", u |-> "knot", pk |-> "metric", pe |-> 0],
+  [text |-> "knot", u |-> "knot", pk |-> "metric", pe |-> 0],
+  [text |-> "thermie", u |-> "thermie", pk |-> "metric", pe |-> 0],
+  [text |-> "inHg", u |-> "inHg", pk |-> "metric", pe |-> 0],
+  [text |-> "fps", u |-> "fps", pk |-> "metric", pe |-> 0],
+  [text |-> "ton", u |-> "tonne", pk |-> "metric", pe |-> 0],
+  [text |-> "tonne", u |-> "tonne", pk |-> "metric", pe |-> 0],
+  [text |-> "kton", u |-> "tonne", pk |-> "metric", pe |-> 3],
+  [text |-> "mton", u |-> "tonne", pk |-> "metric", pe |-> -3],
+  [text |-> "min", u |-> "minute", pk |-> "metric", pe |-> 0],
+  [text |-> "minute", u |-> "minute", pk |-> "metric", pe |-> 0],
+  [text |-> "yd", u |-> "yard", pk |-> "metric", pe |-> 0],
+  [text |-> "yard", u |-> "yard", pk |-> "metric", pe |-> 0],
+  [text |-> "smoot", u |-> "smoot", pk |-> "metric", pe |-> 0],
+  [text |-> "PSI", u |-> "psi", pk |-> "metric", pe |-> 0],
+  [text |-> "psi", u |-> "psi", pk |-> "metric", pe |-> 0],
+  [text |-> "RPM", u |-> "rpm", pk |-> "metric", pe |-> 0],
+  [text |-> "rpm", u |-> "rpm", pk |-> "metric", pe |-> 0],
+  [text |-> "planck_time", u |-> "planck_time", pk |-> "metric", pe |-> 0],
+  [text |-> "tsp", u |-> "teaspoon", pk |-> "metric", pe |-> 0],
+  [text |-> "teaspoon", u |-> "teaspoon", pk |-> "metric", pe |-> 0],
+  [text |-> "century", u |-> "century", pk |-> "metric", pe |-> 0],
+  [text |-> "gradian", u |-> "gradian", pk |-> "metric", pe |-> 0],
+  [text |-> "million", u |-> "million", pk |-> "metric", pe |-> 0],
+  [text |-> "billion", u |-> "billion", pk |-> "metric", pe |-> 0],
+  [text |-> "J", u |-> "joule", pk |-> "metric", pe |-> 0],
+  [text |-> "joule", u |-> "joule", pk |-> "metric", pe |-> 0],
+  [text |-> "kJ", u |-> "joule", pk |-> "metric", pe |-> 3],
+  [text |-> "mJ", u |-> "joule", pk |-> "metric", pe |-> -3],
+  [text |-> "‰", u |-> "permille", pk |-> "metric", pe |-> 0],
+  [text |-> "permille", u |-> "permille", pk |-> "metric", pe |-> 0],
+  [text |-> "day", u |-> "day", pk |-> "metric", pe |-> 0],
+  [text |-> "ozf", u |-> "ounce_force", pk |-> "metric", pe |-> 0],
+  [text |-> "ounce_force", u |-> "ounce_force", pk |-> "metric", pe |-> 0],
+  [text |-> "NM", u |-> "nautical_mile", pk |-> "metric", pe |-> 0],
+  [text |-> "nautical_mile", u |-> "nautical_mile", pk |-> "metric", pe |-> 0],
+  [text |-> "dwt", u |-> "pennyweight", pk |-> "metric", pe |-> 0],
+  [text |-> "pennyweight", u |-> "pennyweight", pk |-> "metric", pe |-> 0],
+  [text |-> "bps", u |-> "bps", pk |-> "metric", pe |-> 0],
+  [text |-> "kbps", u |-> "bps", pk |-> "metric", pe |-> 3],
+  [text |-> "mbps", u |-> "bps", pk |-> "metric", pe |-> -3],
+  [text |-> "atm", u |-> "atmosphere", pk |-> "metric", pe |-> 0],
+  [text |-> "atmosphere", u |-> "atmosphere", pk |-> "metric", pe |-> 0],
+  [text |-> "planck_mass", u |-> "planck_mass", pk |-> "metric", pe |-> 0],
+  [text |-> "Gy", u |-> "gray", pk |-> "metric", pe |-> 0],
+  [text |-> "gray", u |-> "gray", pk |-> "metric", pe |-> 0],
+  [text |-> "kGy", u |-> "gray", pk |-> "metric", pe |-> 3],
+  [text |-> "mGy", u |-> "gray", pk |-> "metric", pe |-> -3],
+  [text |-> "KSI", u |-> "ksi", pk |-> "metric", pe |-> 0],
+  [text |-> "ksi", u |-> "ksi", pk |-> "metric", pe |-> 0],
+  [text |-> "dyne", u |-> "dyne", pk |-> "metric", pe |-> 0],
+  [text |-> "h", u |-> "hour", pk |-> "metric", pe |-> 0],
+  [text |-> "hour", u |-> "hour", pk |-> "metric", pe |-> 0],
+  [text |-> "gauss", u |-> "gauss", pk |-> "metric", pe |-> 0],
+  [text |-> "°", u |-> "degree", pk |-> "metric", pe |-> 0],
+  [text |-> "degree", u |-> "degree", pk |-> "metric", pe |-> 0],
+  [text |-> "Ω", u |-> "ohm", pk |-> "metric", pe |-> 0],
+  [text |-> "ohm", u |-> "ohm", pk |-> "metric", pe |-> 0],
+  [text |-> "kΩ", u |-> "ohm", pk |-> "metric", pe |-> 3],
+  [text |-> "mΩ", u |-> "ohm", pk |-> "metric", pe |-> -3],
+  [text |-> "ly", u |-> "lightyear", pk |-> "metric", pe |-> 0],
+  [text |-> "lightyear", u |-> "lightyear", pk |-> "metric", pe |-> 0],
+  [text |-> "kly", u |-> "lightyear", pk |-> "metric", pe |-> 3],
+  [text |-> "mly", u |-> "lightyear", pk |-> "metric", pe |-> -3],
+  [text |-> "grain", u |-> "grain", pk |-> "metric", pe |-> 0],
+  [text |-> "oz", u |-> "ounce", pk |-> "metric", pe |-> 0],
+  [text |-> "ounce", u |-> "ounce", pk |-> "metric", pe |-> 0],
+  [text |-> "Ah", u |-> "amperehour", pk |-> "metric", pe |-> 0],
+  [text |-> "amperehour", u |-> "amperehour", pk |-> "metric", pe |-> 0],
+  [text |-> "kAh", u |-> "amperehour", pk |-> "metric", pe |-> 3],
+  [text |-> "mAh", u |-> "amperehour", pk |-> "metric", pe |-> -3],
+  [text |-> "sr", u |-> "steradian", pk |-> "metric", pe |-> 0],
+  [text |-> "steradian", u |-> "steradian", pk |-> "metric", pe |-> 0],
+  [text |-> "ksr", u |-> "steradian", pk |-> "metric", pe |-> 3],
+  [text |-> "msr", u |-> "steradian", pk |-> "metric", pe |-> -3],
+  [text |-> "quadrillion", u |-> "quadrillion", pk |-> "metric", pe |-> 0],
+  [text |-> "H", u |-> "henry", pk |-> "metric", pe |-> 0],
+  [text |-> "henry", u |-> "henry", pk |-> "metric", pe |-> 0],
+  [text |-> "kH", u |-> "henry", pk |-> "metric", pe |-> 3],
+  [text |-> "mH", u |-> "henry", pk |-> "metric", pe |-> -3],
+  [text |-> "league", u |-> "league", pk |-> "metric", pe |-> 0],
+  [text |-> "in", u |-> "inch", pk |-> "metric", pe |-> 0],
+  [text |-> "inch", u |-> "inch", pk |-> "metric", pe |-> 0],
+  [text |-> "rad", u |-> "radian", pk |-> "metric", pe |-> 0],
+  [text |-> "radian", u |-> "radian", pk |-> "metric", pe |-> 0],
+  [text |-> "krad", u |-> "radian", pk |-> "metric", pe |-> 3],
+  [text |-> "mrad", u |-> "radian", pk |-> "metric", pe |-> -3],
+  [text |-> "partsperbillion", u |-> "partsperbillion", pk |-> "metric", pe |-> 0],
+  [text |-> "millennium", u |-> "millennium", pk |-> "metric", pe |-> 0],
+  [text |-> "eV", u |-> "electronvolt", pk |-> "metric", pe |-> 0],
+  [text |-> "electronvolt", u |-> "electronvolt", pk |-> "metric", pe |-> 0],
+  [text |-> "keV", u |-> "electronvolt", pk |-> "metric", pe |-> 3],
+  [text |-> "meV", u |-> "electronvolt", pk |-> "metric", pe |-> -3],
+  [text |-> "mmHg", u |-> "mmHg", pk |-> "metric", pe |-> 0],
+  [text |-> "metric_tsp", u |-> "metric_teaspoon", pk |-> "metric", pe |-> 0],
+  [text |-> "metric_teaspoon", u |-> "metric_teaspoon", pk |-> "metric", pe |-> 0],
+  [text |-> "UK_pt", u |-> "imperial_pint", pk |-> "metric", pe |-> 0],
+  [text |-> "imperial_pint", u |-> "imperial_pint", pk |-> "metric", pe |-> 0],
+  [text |-> "St", u |-> "stokes", pk |-> "metric", pe |-> 0],
+  [text |-> "stokes", u |-> "stokes", pk |-> "metric", pe |-> 0],
+  [text |-> "kSt", u |-> "stokes", pk |-> "metric", pe |-> 3],
+  [text |-> "mSt", u |-> "stokes", pk |-> "metric", pe |-> -3],
+  [text |-> "BPM", u |-> "bpm", pk |-> "metric", pe |-> 0],
+  [text |-> "bpm", u |-> "bpm", pk |-> "metric", pe |-> 0],
+  [text |-> "mpg", u |-> "mpg", pk |-> "metric", pe |-> 0],
+  [text |-> "sidereal_day", u |-> "sidereal_day", pk |-> "metric", pe |-> 0],
+  [text |-> "pc", u |-> "parsec", pk |-> "metric", pe |-> 0],
+  [text |-> "parsec", u |-> "parsec", pk |-> "metric", pe |-> 0],
+  [text |-> "kpc", u |-> "parsec", pk |-> "metric", pe |-> 3],
+  [text |-> "mpc", u |-> "parsec", pk |-> "metric", pe |-> -3],
+  [text |-> "quintillion", u |-> "quintillion", pk |-> "metric", pe |-> 0],
+  [text |-> "cal", u |-> "calorie", pk |-> "metric", pe |-> 0],
+  [text |-> "calorie", u |-> "calorie", pk |-> "metric", pe |-> 0],
+  [text |-> "kcal", u |-> "calorie", pk |-> "metric", pe |-> 3],
+  [text |-> "mcal", u |-> "calorie", pk |-> "metric", pe |-> -3],
+  [text |-> "cc", u |-> "cc", pk |-> "metric", pe |-> 0],
+  [text |-> "poise", u |-> "poise", pk |-> "metric", pe |-> 0],
+  [text |-> "kilopoise", u |-> "poise", pk |-> "metric", pe |-> 3],
+  [text |-> "millipoise", u |-> "poise", pk |-> "metric", pe |-> -3],
+  [text |-> "metric_tbsp", u |-> "metric_tablespoon", pk |-> "metric", pe |-> 0],
+  [text |-> "metric_tablespoon", u |-> "metric_tablespoon", pk |-> "metric", pe |-> 0],
+  [text |-> "Pa", u |-> "pascal", pk |-> "metric", pe |-> 0],
+  [text |-> "pascal", u |-> "pascal", pk |-> "metric", pe |-> 0],
+  [text |-> "kPa", u |-> "pascal", pk |-> "metric", pe |-> 3],
+  [text |-> "mPa", u |-> "pascal", pk |-> "metric", pe |-> -3],
+  [text |-> "UK_qt", u |-> "imperial_quart", pk |-> "metric", pe |-> 0],
+  [text |-> "imperial_quart", u |-> "imperial_quart", pk |-> "metric", pe |-> 0],
+  [text |-> "stone", u |-> "stone", pk |-> "metric", pe |-> 0],
+  [text |-> "″", u |-> "arcsecond", pk |-> "metric", pe |-> 0],
+  [text |-> "arcsecond", u |-> "arcsecond", pk |-> "metric", pe |-> 0],
+  [text |-> "kiloarcsecond", u |-> "arcsecond", pk |-> "metric", pe |-> 3],
+  [text |-> "milliarcsecond", u |-> "arcsecond", pk |-> "metric", pe |-> -3],
+  [text |-> "RU", u |-> "rackunit", pk |-> "metric", pe |-> 0],
+  [text |-> "rackunit", u |-> "rackunit", pk |-> "metric", pe |-> 0],
+  [text |-> "barrel", u |-> "barrel", pk |-> "metric", pe |-> 0],
+  [text |-> "unix_ms", u |-> "unix_ms", pk |-> "metric", pe |-> 0],
+  [text |-> "Da", u |-> "dalton", pk |-> "metric", pe |-> 0],
+  [text |-> "dalton", u |-> "dalton", pk |-> "metric", pe |-> 0],
+  [text |-> "torr", u |-> "torr", pk |-> "metric", pe |-> 0],
+  [text |-> "N", u |-> "newton", pk |-> "metric", pe |-> 0],
+  [text |-> "newton", u |-> "newton", pk |-> "metric", pe |-> 0],
+  [text |-> "kN", u |-> "newton", pk |-> "metric", pe |-> 3],
+  [text |-> "mN", u |-> "newton", pk |-> "metric", pe |-> -3],
+  [text |-> "julian_year", u |-> "julian_year", pk |-> "metric", pe |-> 0],
+  [text |-> "dozen", u |-> "dozen", pk |-> "metric", pe |-> 0],
+  [text |-> "mph", u |-> "mph", pk |-> "metric", pe |-> 0],
+  [text |-> "long_ton", u |-> "long_ton", pk |-> "metric", pe |-> 0],
+  [text |-> "V", u |-> "volt", pk |-> "metric", pe |-> 0],
+  [text |-> "volt", u |-> "volt", pk |-> "metric", pe |-> 0],
+  [text |-> "kV", u |-> "volt", pk |-> "metric", pe |-> 3],
+  [text |-> "mV", u |-> "volt", pk |-> "metric", pe |-> -3],
+  [text |-> "are", u |-> "are", pk |-> "metric", pe |-> 0],
+  [text |-> "acre", u |-> "acre", pk |-> "metric", pe |-> 0],
+  [text |-> "Wb", u |-> "weber", pk |-> "metric", pe |-> 0],
+  [text |-> "weber", u |-> "weber", pk |-> "metric", pe |-> 0],
+  [text |-> "kWb", u |-> "weber", pk |-> "metric", pe |-> 3],
+  [text |-> "mWb", u |-> "weber", pk |-> "metric", pe |-> -3],
+  [text |-> "barn", u |-> "barn", pk |-> "metric", pe |-> 0],
+  [text |-> "kilobarn", u |-> "barn", pk |-> "metric", pe |-> 3],
+  [text |-> "millibarn", u |-> "barn", pk |-> "metric", pe |-> -3],
+  [text |-> "fc", u |-> "footcandle", pk |-> "metric", pe |-> 0],
+  [text |-> "footcandle", u |-> "footcandle", pk |-> "metric", pe |-> 0],
+  [text |-> "W", u |-> "watt", pk |-> "metric", pe |-> 0],
+  [text |-> "watt", u |-> "watt", pk |-> "metric", pe |-> 0],
+  [text |-> "kW", u |-> "watt", pk |-> "metric", pe |-> 3],
+  [text |-> "mW", u |-> "watt", pk |-> "metric", pe |-> -3],
+  [text |-> "UK_gi", u |-> "imperial_gill", pk |-> "metric", pe |-> 0],
+  [text |-> "imperial_gill", u |-> "imperial_gill", pk |-> "metric", pe |-> 0],
+  [text |-> "MPSI", u |-> "mpsi", pk |-> "metric", pe |-> 0],
+  [text |-> "mpsi", u |-> "mpsi", pk |-> "metric", pe |-> 0],
+  [text |-> "ha", u |-> "hectare", pk |-> "metric", pe |-> 0],
+  [text |-> "hectare", u |-> "hectare", pk |-> "metric", pe |-> 0],
+  [text |-> "kat", u |-> "katal", pk |-> "metric", pe |-> 0],
+  [text |-> "katal", u |-> "katal", pk |-> "metric", pe |-> 0],
+  [text |-> "kkat", u |-> "katal", pk |-> "metric", pe |-> 3],
+  [text |-> "mkat", u |-> "katal", pk |-> "metric", pe |-> -3],
+  [text |-> "BTU", u |-> "BTU", pk |-> "metric", pe |-> 0],
+  [text |-> "Sv", u |-> "sievert", pk |-> "metric", pe |-> 0],
+  [text |-> "sievert", u |-> "sievert", pk |-> "metric", pe |-> 0],
+  [text |-> "kSv", u |-> "sievert", pk |-> "metric", pe |-> 3],
+  [text |-> "mSv", u |-> "sievert", pk |-> "metric", pe |-> -3],
+  [text |-> "%", u |-> "percent", pk |-> "metric", pe |-> 0],
+  [text |-> "percent", u |-> "percent", pk |-> "metric", pe |-> 0],
+  [text |-> "darcy", u |-> "darcy", pk |-> "metric", pe |-> 0],
+  [text |-> "kilodarcy", u |-> "darcy", pk |-> "metric", pe |-> 3],
+  [text |-> "millidarcy", u |-> "darcy", pk |-> "metric", pe |-> -3],
+  [text |-> "ozt", u |-> "troy_ounce", pk |-> "metric", pe |-> 0],
+  [text |-> "troy_ounce", u |-> "troy_ounce", pk |-> "metric", pe |-> 0],
+  [text |-> "gal", u |-> "gallon", pk |-> "metric", pe |-> 0],
+  [text |-> "gallon", u |-> "gallon", pk |-> "metric", pe |-> 0],
+  [text |-> "pint", u |-> "pint", pk |-> "metric", pe |-> 0],
+  [text |-> "hogshead", u |-> "hogshead", pk |-> "metric", pe |-> 0],
+  [text |-> "planck_energy", u |-> "planck_energy", pk |-> "metric", pe |-> 0],
+  [text |-> "furlong", u |-> "furlong", pk |-> "metric", pe |-> 0],
+  [text |-> "kilofurlong", u |-> "furlong", pk |-> "metric", pe |-> 3],
+  [text |-> "millifurlong", u |-> "furlong", pk |-> "metric", pe |-> -3],
+  [text |-> "swimmingpool", u |-> "swimmingpool", pk |-> "metric", pe |-> 0],
+  [text |-> "UK_floz", u |-> "imperial_fluidounce", pk |-> "metric", pe |-> 0],
+  [text |-> "imperial_fluidounce", u |-> "imperial_fluidounce", pk |-> "metric", pe |-> 0],
+  [text |-> "molar", u |-> "molar", pk |-> "metric", pe |-> 0],
+  [text |-> "kilomolar", u |-> "molar", pk |-> "metric", pe |-> 3],
+  [text |-> "millimolar", u |-> "molar", pk |-> "metric", pe |-> -3],
+  [text |-> "lb", u |-> "pound", pk |-> "metric", pe |-> 0],
+  [text |-> "pound", u |-> "pound", pk |-> "metric", pe |-> 0] >>
+Partners == {1, 5, 11, 322, 234, 264, 364, 237, 3}
 Partners2 == {1, 5, 11}
-SumPartners == {1, 5, 9, 13, 17, 21, 25, 29, 31, 36, 40, 41, 42, 43, 44, 45, 48, 49, 53, 57, 61, 62, 64, 68, 70, 71, 72, 74, 76, 78, 82, 83, 85, 86, 88, 92, 93, 94, 96, 97, 100, 101, 102, 106, 107, 108, 112, 114, 116, 117, 121, 125, 127, 129, 130, 132, 134, 136, 137, 141, 142, 144, 145, 147, 148, 150, 151, 154, 156, 158, 159, 163, 165, 166, 168, 172, 173, 175, 178, 179, 180, 181, 182, 184, 188, 192, 194, 195, 196, 197, 203, 204, 208, 209, 210, 214, 218, 220, 222, 223, 227, 228, 231, 234, 235, 236, 237, 241, 243, 245, 247, 249, 253, 254, 255, 257, 258, 262, 263, 267, 268, 272, 273, 274, 278, 282, 283, 284, 285, 287, 291, 293, 295, 297, 298, 299, 301, 302, 305, 308, 310, 311, 312, 313, 317, 318, 321, 323, 327, 328, 330, 331, 333, 335, 339, 342, 344, 346, 348, 349, 350, 354, 356, 360, 361, 363, 364, 368, 370, 372, 373, 374, 375, 376, 377, 378, 381, 385, 386}
-PairPartners == {1, 5, 9, 13, 17, 21, 25, 29, 31, 36, 40, 41, 42, 43, 44, 45, 48, 49, 53, 57, 61, 62, 64, 68, 70, 71, 72, 74, 76, 78, 82, 83, 85, 86, 88, 92, 93, 94, 96, 97, 100, 101, 102, 106, 107, 108, 112, 114, 116, 117, 121, 125, 127, 129, 130, 132, 134, 136, 137, 141, 142, 144, 145, 147, 148, 150, 151, 154, 156, 158, 159, 163, 165, 166, 168, 172, 173, 175, 178, 179, 180, 181, 182, 184, 188, 192, 194, 195, 196, 197, 203, 204, 208, 209, 210, 214, 218, 220, 222, 223, 227, 228, 231, 234, 235, 236, 237, 241, 243, 245, 247, 249, 253, 254, 255, 257, 258, 262, 263, 267, 268, 272, 273, 274, 278, 282, 283, 284, 285, 287, 291, 293, 295, 297, 298, 299, 301, 302, 305, 308, 310, 311, 312, 313, 317, 318, 321, 323, 327, 328, 330, 331, 333, 335, 339, 342, 344, 346, 348, 349, 350, 354, 356, 360, 361, 363, 364, 368, 370, 372, 373, 374, 375, 376, 377, 378, 381, 385, 386}
-CompoundPartners == {1, 83, 3, 218, 5, 354, 9, 308, 53, 331, 197, 31, 117, 356, 154, 323}
+SumPartners == {1, 5, 9, 13, 17, 21, 25, 29, 31, 36, 40, 41, 42, 43, 44, 45, 48, 49, 50, 54, 55, 56, 60, 61, 67, 71, 72, 73, 75, 76, 79, 81, 85, 86, 89, 91, 92, 93, 97, 98, 100, 101, 105, 106, 108, 109, 112, 116, 118, 120, 123, 127, 131, 132, 133, 134, 138, 140, 142, 144, 145, 147, 148, 149, 151, 155, 157, 159, 160, 161, 162, 164, 165, 167, 168, 169, 171, 175, 176, 177, 178, 182, 183, 185, 186, 187, 188, 192, 194, 196, 197, 199, 201, 202, 204, 205, 206, 207, 208, 212, 214, 215, 217, 219, 221, 224, 226, 227, 231, 233, 234, 236, 237, 239, 243, 247, 248, 250, 254, 258, 259, 263, 264, 266, 270, 271, 272, 276, 277, 279, 281, 285, 287, 288, 289, 293, 294, 298, 299, 302, 304, 308, 310, 311, 315, 317, 318, 319, 321, 322, 326, 327, 328, 329, 330, 334, 335, 336, 340, 343, 345, 349, 351, 353, 355, 359, 360, 364, 366, 369, 371, 373, 374, 375, 376, 379, 380, 382, 385}
+PairPartners == {1, 5, 9, 13, 17, 21, 25, 29, 31, 36, 40, 41, 42, 43, 44, 45, 48, 49, 50, 54, 55, 56, 60, 61, 67, 71, 72, 73, 75, 76, 79, 81, 85, 86, 89, 91, 92, 93, 97, 98, 100, 101, 105, 106, 108, 109, 112, 116, 118, 120, 123, 127, 131, 132, 133, 134, 138, 140, 142, 144, 145, 147, 148, 149, 151, 155, 157, 159, 160, 161, 162, 164, 165, 167, 168, 169, 171, 175, 176, 177, 178, 182, 183, 185, 186, 187, 188, 192, 194, 196, 197, 199, 201, 202, 204, 205, 206, 207, 208, 212, 214, 215, 217, 219, 221, 224, 226, 227, 231, 233, 234, 236, 237, 239, 243, 247, 248, 250, 254, 258, 259, 263, 264, 266, 270, 271, 272, 276, 277, 279, 281, 285, 287, 288, 289, 293, 294, 298, 299, 302, 304, 308, 310, 311, 315, 317, 318, 319, 321, 322, 326, 327, 328, 329, 330, 334, 335, 336, 340, 343, 345, 349, 351, 353, 355, 359, 360, 364, 366, 369, 371, 373, 374, 375, 376, 379, 380, 382, 385}
+CompoundPartners == {1, 264, 3, 165, 5, 234, 9, 385, 101, 371, 61, 31, 208, 294, 237, 266}
 ====
